@@ -7,7 +7,13 @@ SuPartition.lean, run at Float through Drivers/C01.lean) and
   (b) SolveUnc(...).tsolve over the option grid, uncoupled real path (histories)
   (c) SolveUnc coupled path / pre_eig / SolveExp2 / SolveExp1 on systems BUILT FROM modal data, so
       the model's closed form mapped through the chosen mode shapes is the reference.
-Floats travel as bit patterns.  The oracle (`search`) never touches the model.
+  (q, r) the coupled path / SolveExp2 driven by the implementation's own pc / E, P, Q; static initial state, M^-1 F and
+      acceleration by the model's Gaussian elimination (over Q / at Float)
+  (x) SolveExp1 (own E, P, Q; and exactly over Q on dyadic E, P, Q), force dtypes
+  (e) pre_eig (own phi; and exactly over Q on diagonal systems where la.eigh is exact)
+  (u) uncoupled equations with complex-dtype coefficients (complex-eigenvalue path, undamped rigid-body recurrence)
+and a translator (harness/translate/c01_sucoefcuts.py) that regenerates the cut-off literals of the regime dispatch.
+Floats travel as bit patterns, rationals as num/den.  The oracle (`search`) never touches the model.
 """
 import json
 import math
@@ -17,7 +23,9 @@ import warnings
 
 import numpy as np
 
-from runner import Infra
+from fractions import Fraction
+
+from runner import Infra, TieBroken
 
 ID = "C01"
 LEAN_MODULES = [
@@ -28,6 +36,12 @@ LEAN_MODULES = [
     "PyYetiVerif.Props.C01Coupled",
     "PyYetiVerif.Props.C01Delconj",
     "PyYetiVerif.Props.C01Exp",
+    "PyYetiVerif.Props.C01Exp1",
+    "PyYetiVerif.Props.C01Rb",
+    "PyYetiVerif.Props.C01StaticC",
+    "PyYetiVerif.Props.C01PreEig",
+    "PyYetiVerif.Props.C01Cuts",
+    "PyYetiVerif.Props.C01CplxUnc",
     "PyYetiVerif.Audit.C01",
 ]
 AUDIT_FILE = "PyYetiVerif/Audit/C01.lean"
@@ -47,22 +61,44 @@ THEOREMS = [
         "decoupled_recovers coupled_step_exact coupled_run_exact sol2R_exists delconj_recovers coupled_run_exact_real "
         "oscKept_spec "
         # SolveExp2 (Props/C01Exp.lean)
-        "exp2_step_exact exp2_run_exact freeA_spec"
+        "exp2_step_exact exp2_run_exact freeA_spec "
+        # SolveExp1 (Props/C01Exp1.lean)
+        "exp1_step_exact exp1_run_exact exp1_history_not_converted exp1_velo_is_derivative exp1_init zeroA_spec "
+        # rigid-body recurrence of the coupled path (Props/C01Rb.lean)
+        "rb_step_is_rigid_regime rb_step_exact rb_run_is_runUnc rb_run_exact "
+        # linear solves of the coupled paths (Props/C01StaticC.lean)
+        "lin_solve_spec mass_solve_spec static_ic_coupled_is_equilibrium static_ic_coupled_accel_zero accel_coupled_eom "
+        # pre_eig (Props/C01PreEig.lean)
+        "pre_eig_solution_is_solution pre_eig_mass_forms_agree pre_eig_damping_forms_agree pre_eig_ic_consistent "
+        "pre_eig_ic_is_phiT_M pre_eig_first_sample "
+        # cut-offs as the source spells them (Props/C01Cuts.lean, about Generated/SuCoefCuts.lean)
+        "cuts_as_documented crit_regimes_partition classify_elastic_spec classify_rb_spec classify_auto_rb_iff "
+        # uncoupled equations with complex-dtype coefficients: rigid-body rows, finding F61 (Props/C01CplxUnc.lean)
+        "complex_unc_rb_row_is_undamped isSol_unit_mass_scale complex_unc_rb_exact_partial "
+        "complex_unc_damped_rb_counterexample complex_recovery_real_part complex_dtype_real_system_response_is_real"
     ).split()
 ]
 TRUSTED = [
     "correspondence harness harness/props/c01.py (|impl-model| <= 1e-9*scale, scale = largest magnitude among the "
-    "added terms; streams through eig/expm 1e-9*scale*cond of the eigenvectors; closed-form stream 1e-7*scale*cond(phi))",
+    "added terms; streams through eig/expm 1e-9*scale*cond of the eigenvectors; closed-form stream 1e-7*scale*cond(phi); "
+    "EXACT over the rationals in the streams exp1x (SolveExp1 recurrence on dyadic E, P, Q) and pex (pre_eig on diagonal "
+    "systems with masses 4^j), exact bit patterns for classifications, partitions and dtypes)",
+    "translator harness/translate/c01_sucoefcuts.py (Python ast, no execution): the literals of the regime tests of "
+    "get_su_coef, _get_complex_su_coefs, _make_rb_el -> Generated/SuCoefCuts.lean, with the comparison operators checked",
     "numpy/libm exp, sin, cos, sqrt, pow at Float (1-ulp differences between numpy and Lean's C library calls)",
-    "scipy.linalg.eig / inv (coupled path), eigh (pre_eig), lu_solve and expmint.getEPQ are not modelled: they enter "
-    "the theorems as hypotheses (DelconjSpec: the eigen-decomposition rebuilt from pc.lam, pc.ur, pc.ur_inv diagonalises "
-    "A and is inverted by ur_inv; ExpSpec: E, P, Q are exp(Ah) and its two integrals) and these hypotheses are measured "
-    "on the implementation's own pc / E, P, Q on every run with plain numpy / scipy.linalg.expm (residual <= 1e-9*cond, "
-    "resp. 1e-8); M^-1 F, the coupled static initial state K_ee^-1 F0 and the coupled acceleration M^-1 (F - B v - K d) "
-    "are evaluated with numpy inside the harness from the model's d, v",
+    "scipy.linalg.eig / inv (coupled path), la.eigh (pre_eig) and expmint.getEPQ are not modelled: they enter the "
+    "theorems as hypotheses (DelconjSpec: the eigen-decomposition rebuilt from pc.lam, pc.ur, pc.ur_inv diagonalises A "
+    "and is inverted by ur_inv; ExpSpec: E, P, Q are exp(Ah) and its two integrals; eigh: phi' M phi = 1, phi' K phi "
+    "diagonal) and these hypotheses are measured on the implementation's own pc / E, P, Q / phi on every run with plain "
+    "numpy / scipy.linalg.expm (residual <= 1e-9*cond, resp. 1e-8; exactly over Q in the pex stream)",
+    "LAPACK's linear solves (np.linalg.solve, la.solve, lu_factor + lu_solve) are represented in the model by Gaussian "
+    "elimination with partial pivoting (Model/FreqGauss.lean, shared with C02, proved to return a solution over any "
+    "field: lin_solve_spec); the driver runs it over Q on the exact values of the doubles (static initial state, "
+    "la.solve(phi, d0) in the pex stream) and at Float (M^-1 F, acceleration); agreement with LAPACK is numeric",
     "switch errors of the cut-offs (|w2/wo2| < 1e-8 treated as critical, |lam| < 5e-5 treated as zero, "
-    "wo2 < 0.005 treated as rigid), the (w h)^-3 cancellation of the uncoupled coefficients and the (|lam| h)^-2 "
-    "cancellation of the complex coefficients Ae, Be are floating-point facts: measured, not proved",
+    "abs(k) < 0.005 treated as rigid, the two damped-rigid-body cut-offs), the (w h)^-3 cancellation of the uncoupled "
+    "coefficients and the (|lam| h)^-2 cancellation of the complex coefficients Ae, Be are floating-point facts: "
+    "measured (boundary oracle against a 60-digit reference), not proved",
 ]
 RULE = (
     "(a) one case = one scalar mode (m|None, b, k, h, rb flag, rf flag) drawn per regime (rigid, rigid-damped "
@@ -77,64 +113,116 @@ RULE = (
     "data + a well-conditioned mode-shape matrix, compared on five solver variants. (q) one case = a coupled system "
     "(general M, symmetric / skew / mixed / no damping, gyroscopically coupled zero-stiffness DOF, or built from modal "
     "data with block rigid-body modes) x order x d0/v0/static_ic; the Lean model is run on the implementation's own "
-    "pc.lam, ur, ur_inv; cond(eigenvectors) > 1e6 skipped and counted; a mode with 5e-5 <= |lam| and |lam| h < 1e-3 is "
+    "pc.lam, ur, ur_inv, the static initial state, M^-1 F and the acceleration by the model's elimination; "
+    "cond(eigenvectors) > 1e6 skipped and counted; a mode with 5e-5 <= |lam| and |lam| h < 1e-3 is "
     "outside the conditioning domain (Ae, Be lose (|lam| h)^-2 digits by cancellation): skipped and counted, tolerance "
     "graded by (1e-2/(|lam| h))^2 for 1e-3 <= |lam| h < 1e-2 (same rule in the oracle). (r) the same systems (any damping, singular "
-    "stiffness allowed) and uncoupled ones with rf modes through SolveExp2, the Lean model run on its own E, P, Q"
+    "stiffness allowed) and uncoupled ones with rf modes through SolveExp2, the Lean model run on its own E, P, Q. "
+    "(x) one case = a first-order system (state matrix of a second-order system / random / nilpotent A, n <= 6) x order x "
+    "force dtype (float64, int64, float32) x d0 given or not, SolveExp1 on its own E, P, Q; (x-exact) n <= 3, nt <= 6, "
+    "E, P, Q, A with entries j/4, forces whole or half numbers: compared as rationals. (e) one case = a symmetric "
+    "system x mass form (None, 1-D, 2-D) x damping form (1-D, 2-D) x SolveUnc / SolveExp2 x d0, v0, static_ic with "
+    "pre_eig=True, the model driven by the implementation's own phi; (e-exact) diagonal systems with masses 4^j, modal "
+    "stiffnesses 2^j (one may be 0: a rigid-body mode), first sample only (nt = 1): compared as rationals. (u) one case = an "
+    "uncoupled system whose m, b or k has a complex dtype (zero imaginary parts or a loss factor 1e-3..5e-2) x order x rb "
+    "auto/explicit x damped / undamped rigid-body modes x static_ic. Oracle extra: 44 fixed boundary cases at "
+    "constant*(1 -+ 1e-3) and 3x, 9x each documented cut-off (one mode against a 60-digit reference; rb=None against the "
+    "documented rule; a coupled system with an eigenvalue at the 5e-5 test)"
 )
 ASSUMPTIONS = [
     "mass is non-singular and the rb/rf partitions are given in modal space (documented domain)",
-    "theorems are over the reals / complexes; Float evaluation is used only in the correspondence check",
+    "theorems are over the reals / complexes (linear-solve theorems over any field); Float / Rat evaluation is used "
+    "only in the correspondence check",
     "coupled-path theorems: the kept eigen-data satisfy DelconjSpec (rebuilt decomposition: U V = 1, V U = 1, "
-    "A U = U diag(lam), real modes real, small-eigenvalue branch only for zero eigenvalues); SolveExp2 theorems: "
-    "E, P, Q satisfy ExpSpec (E = exp(A h), P, Q its hold integrals); both measured per run, not proved of scipy",
+    "A U = U diag(lam), real modes real, small-eigenvalue branch only for zero eigenvalues); SolveExp2 / SolveExp1 "
+    "theorems: E, P, Q satisfy ExpSpec (E = exp(A h), P, Q its hold integrals); pre_eig theorems: phi' M phi = 1, "
+    "phi' K phi = diag(w); all measured per run, not proved of scipy",
+    "complex_unc_rb_exact_partial: the rigid-body row of an uncoupled complex-dtype system is undamped (b = 0); the "
+    "damped row is open finding F61 (complex_unc_damped_rb_counterexample shows the hypothesis is necessary)",
 ]
 PARTIAL = (
-    "partial: (1) scipy.linalg.eig/inv, eigh (pre_eig), lu_solve and expmint's Pade evaluation are not modelled: "
-    "decoupled_recovers / delconj_recovers / coupled_run_exact_real and exp2_step_exact / exp2_run_exact are proved "
-    "*given* the eigen-decomposition resp. E = exp(Ah), P, Q (the hypotheses are measured on the implementation's own "
-    "values each run; Props/C07 proves the series-level content of E, P, Q); the pre_eig transformation (eigh, modal "
-    "force phi'F, initial conditions phi^-1 d0) and SolveExp1 are tied by correspondence only; the rigid-body recurrence "
-    "of the coupled path (rbStep) is tied by correspondence and is the rigid regime of su_coef_eq algebraically, no "
-    "separate theorem; (2) the rigid-damped velocity-only regime is exact for the velocity only (by design of the "
-    "source: rigidVelo_velocity_exact states the displacement defect); (3) the coupled static initial state "
-    "(np.linalg.solve(k_ee, F0)) and the coupled acceleration (lu_solve) are evaluated by numpy in the harness, not "
-    "by the Lean model; (4) cd_as_force (off-diagonal damping as force) is outside the exactness property and not "
-    "modelled; (5) switch errors of the cut-offs (|lam| < 5e-5, |w2/wo2| < 1e-8, wo2 < 0.005) and cancellation below "
-    "w*h = 1e-2 are floating-point facts: measured, not proved"
+    "partial: (1) scipy.linalg.eig/inv, la.eigh (pre_eig) and expmint's Pade evaluation are not modelled: "
+    "decoupled_recovers / delconj_recovers / coupled_run_exact_real, exp2_step_exact / exp2_run_exact, exp1_step_exact / "
+    "exp1_run_exact and pre_eig_solution_is_solution are proved *given* the eigen-decomposition, resp. E = exp(Ah), P, Q, "
+    "resp. phi' M phi = 1, phi' K phi = diag(w) (the hypotheses are measured on the implementation's own values each run, "
+    "exactly over Q on the diagonal pre_eig cases; Props/C07 proves the series-level content of E, P, Q); LAPACK's "
+    "solves are Gaussian elimination in the model (proved to solve: lin_solve_spec), LAPACK itself is tied numerically; "
+    "(2) the rigid-damped velocity-only regime is exact for the velocity only (by design of the source: "
+    "rigidVelo_velocity_exact states the displacement defect); (3) uncoupled equations with complex-dtype coefficients: "
+    "rigid-body rows are proved exact only when undamped (complex_unc_rb_exact_partial; the damped row is open finding "
+    "F61 with a proved counterexample); the elastic rows run the full modal recurrence (conjugate pairs are deleted "
+    "only for real systems since repair 4a72d85, finding F62: complex_recovery_real_part, "
+    "complex_dtype_real_system_response_is_real; regression guard in the oracle); "
+    "(4) cd_as_force (off-diagonal damping as force) belongs to C08 / C17, it is outside this property and not modelled "
+    "here; (5) the cut-off constants are translated from the source and pinned (cuts_as_documented, "
+    "crit_regimes_partition, classify_*_spec), but the switch errors they cause (|lam| < 5e-5, |w2/wo2| < 1e-8, "
+    "abs(k) < 0.005, the damped-rigid-body cut-offs) and the cancellation below w*h = 1e-2 are floating-point facts: "
+    "measured (boundary oracle, 60-digit reference), not proved; (6) for the coupled, SolveExp2 and pre_eig paths the "
+    "composition static solve -> stepping -> acceleration -> recovery is chained by the harness from the model's pieces "
+    "(each piece is a Lean definition with its theorem); only the uncoupled real path and the complex uncoupled path "
+    "are composed inside the driver"
 )
 MANIFEST = {
     "level_text": "Proof (Lean 4, kernel-checked, standard axioms only) about ONE polymorphic transcription of "
-    "get_su_coef and of the SolveUnc / SolveExp2 recurrences. Uncoupled path: for each regime (under-, over-, critically "
-    "damped, rigid, damped rigid) the closed form built from the code's own F, G, Fp, Gp solves m a + b v + k x = p + s t "
-    "with the initial conditions; the code's A, B, Ap, Bp make one step equal to that solution at t = h (order 1 and 0); "
-    "the solution is unique (Groenwall, Mathlib), so every sample of the recurrence is the end state of THE solution "
-    "started at the previous sample (run_exact_unique); the returned acceleration satisfies the equation of motion. "
-    "Coupled path: if A U = U diag(lam), U V = 1, the modal recurrence with the code's Fe, Ae, Be mapped back through U "
-    "is the state of THE solution of z' = A z + [M^-1 f; 0] (decoupled_recovers), the d / v blocks are those of the "
-    "second-order equation (coupled_step_exact, coupled_run_exact), and for real systems the kept-conjugate recurrence "
-    "with the doubled eigenvectors and rur_d ry - iur_d iy recovers exactly that real solution, sample after sample "
-    "(delconj_recovers, coupled_run_exact_real). SolveExp2: given E = exp(Ah) and the two hold integrals, every sample "
-    "of the E/P/Q recurrence is the end state of THE solution (exp2_step_exact, exp2_run_exact). Bookkeeping: rb/el/rf "
-    "partition [0,n) for explicit and auto-detected rb (uncoupled |k| test, coupled row/column maxima of |k|, |b|), "
-    "nonrf[_rb] = rb and nonrf[_el] = el in order, _mk_slice converts exactly the contiguous ranges; static_ic gives "
-    "k d0 = F0, v0 = 0, a0 = 0 on elastic rows, rf rows are the static solution. The same definitions run at Float and "
-    "are compared with get_su_coef, SolveUnc.tsolve (option grid), the coupled path (closed form, and driven by the "
-    "implementation's own eigen-decomposition), pre_eig, SolveExp2 (closed form, and driven by its own E, P, Q) and "
-    "SolveExp1 on every run.",
-    "level_note": "Trusted: Lean kernel; propext, Classical.choice, Quot.sound; the Python harness; libm. Partial: "
-    "scipy's eig / inv / eigh / lu_solve and expmint's Pade evaluation are hypotheses of the coupled and SolveExp2 "
-    "theorems, measured on the implementation's own values on every run (not proved); pre_eig and SolveExp1 are tied by "
-    "correspondence only; cut-off switch errors and cancellation below w*h = 1e-2 are measured, not proved.",
+    "get_su_coef and of the SolveUnc / SolveExp2 / SolveExp1 recurrences. Uncoupled path: for each regime (under-, over-, "
+    "critically damped, rigid, damped rigid) the closed form built from the code's own F, G, Fp, Gp solves "
+    "m a + b v + k x = p + s t with the initial conditions; the code's A, B, Ap, Bp make one step equal to that solution "
+    "at t = h (order 1 and 0); the solution is unique (Groenwall, Mathlib), so every sample of the recurrence is the end "
+    "state of THE solution started at the previous sample (run_exact_unique); the returned acceleration satisfies the "
+    "equation of motion. Coupled path: if A U = U diag(lam), U V = 1, the modal recurrence with the code's Fe, Ae, Be "
+    "mapped back through U is the state of THE solution of z' = A z + [M^-1 f; 0] (decoupled_recovers), the d / v blocks "
+    "are those of the second-order equation (coupled_step_exact, coupled_run_exact), for real systems the "
+    "kept-conjugate recurrence recovers exactly that real solution (delconj_recovers, coupled_run_exact_real), and its "
+    "rigid-body recurrence is the rigid regime of get_su_coef at unit mass, hence exact (rb_step_is_rigid_regime, "
+    "rb_run_exact). SolveExp2 and SolveExp1: given E = exp(Ah) and the two hold integrals, every sample of the E/P/Q "
+    "recurrence is the end state of THE solution (exp2_*, exp1_step_exact, exp1_run_exact), SolveExp1's history is "
+    "float64 for every force dtype and its v is the derivative (exp1_history_not_converted, exp1_velo_is_derivative). "
+    "pre_eig: if phi' M phi = 1 and phi' K phi = diag(w), a solution of the modal system maps through phi to a solution "
+    "of the physical system for every form of mass and damping (pre_eig_solution_is_solution), and the first sample is "
+    "the d0, v0 that were passed (pre_eig_ic_consistent, pre_eig_first_sample). Linear solves: the model's elimination "
+    "returns a solution over any field; the coupled static initial state satisfies K d0 = F0 on the elastic rows with "
+    "zero rigid-body rows and zero elastic acceleration, and the coupled acceleration satisfies M a + B v + K d = F "
+    "(static_ic_coupled_is_equilibrium, static_ic_coupled_accel_zero, accel_coupled_eom). Cut-offs: the literals of the "
+    "regime tests are translated from the source on every run; they are the documented values and the three elastic tests "
+    "partition the line (cuts_as_documented, crit_regimes_partition, classify_elastic_spec, classify_rb_spec). Bookkeeping: "
+    "rb/el/rf partition [0,n) for explicit and auto-detected rb, nonrf[_rb] = rb and nonrf[_el] = el in order, _mk_slice "
+    "converts exactly the contiguous ranges; static_ic gives k d0 = F0, v0 = 0, a0 = 0 on elastic rows, rf rows are the "
+    "static solution. Uncoupled complex-dtype systems: the rigid-body rows are the undamped recurrence (exact iff the row "
+    "is undamped: open finding F61 with proved counterexample). The same definitions run at Float (and over Q where "
+    "the arithmetic is exact) and are compared with get_su_coef, SolveUnc.tsolve (option grid), the coupled path, "
+    "pre_eig, SolveExp2, SolveExp1 and the complex uncoupled path on every run.",
+    "level_note": "Trusted: Lean kernel; propext, Classical.choice, Quot.sound; the Python harness and the cut-off "
+    "translator; libm. Partial: scipy's eig / inv / eigh and expmint's Pade evaluation are hypotheses of the coupled, "
+    "SolveExp2, SolveExp1 and pre_eig theorems, measured on the implementation's own values on every run (not proved); "
+    "LAPACK's solves are tied numerically to the model's proved elimination; for the coupled / SolveExp2 / pre_eig paths "
+    "the chaining of the model's pieces is done by the harness; cut-off switch errors and cancellation below "
+    "w*h = 1e-2 are measured (60-digit reference at the boundaries), not proved; cd_as_force belongs to C08/C17.",
     "technique": "Lean 4 proof (HasDerivAt of closed forms through one polymorphic definition, field_simp/ring "
     "identities, induction over steps, Mathlib ODE uniqueness, Matrix algebra over C for the decoupling and the "
-    "conjugate-pair reduction, variation of constants for E/P/Q) + numeric differential correspondence at Float "
-    "(including streams in which the model is driven by the implementation's own eig / expm results, with the "
-    "hypotheses of the theorems measured) + model-free oracle (solver agreement, scipy-expm reference, step-subdivision "
-    "invariance, option invariance, static equilibrium, EOM residual)",
+    "conjugate-pair reduction, variation of constants for E/P/Q, congruence argument for pre_eig, proved Gaussian "
+    "elimination for the linear solves) + translator (Python ast) for the cut-off literals + differential correspondence "
+    "at Float and exactly over Q (including streams in which the model is driven by the implementation's own eig / expm "
+    "/ eigh results, with the hypotheses of the theorems measured) + model-free oracle (solver agreement, scipy-expm "
+    "reference, 60-digit one-mode reference at the cut-off boundaries, step-subdivision invariance, option invariance, "
+    "static equilibrium, EOM residual)",
 }
 
 NAMES = "F G A B Fp Gp Ap Bp".split()
+
+
+# ---------------------------------------------------------------------------------------
+# translator: the regime cut-offs of the source -> lean/PyYetiVerif/Generated/SuCoefCuts.lean
+
+
+def translate(ctx):
+    from translate import c01_sucoefcuts as tr
+
+    try:
+        c = tr.run(ctx.repo, ctx.lean)
+    except tr.Unparsable as e:
+        raise TieBroken("cut-offs of get_su_coef / _get_complex_su_coefs / _make_rb_el: %s" % e)
+    ctx.extra["cutoffs_of_the_source"] = c
+    return ["SuCoefCuts"]
 
 
 # ---------------------------------------------------------------------------------------
@@ -364,6 +452,12 @@ def _corr_coef(ctx, drv):
             sc = _scales(regime, m, b, k, h)
         except (ZeroDivisionError, OverflowError, ValueError):
             sc = {n_: 0.0 for n_ in NAMES}
+        if regime in ("rigid", "rf"):
+            # rational formulas, the same operations in the same order: the doubles must be EQUAL
+            ctx.count("coef:exact-compared")
+            if any(not (iv == xv or (iv != iv and xv != xv)) for iv, xv in zip(impl[:8], mv)):
+                ctx.disagree("coef-" + regime + "-exact", inp, dict(zip(NAMES, impl[:8])), dict(zip(NAMES, mv)))
+            continue
         for n, iv, xv in zip(NAMES, impl[:8], mv):
             s = max(sc[n], abs(iv), abs(xv))
             if not (math.isfinite(iv) and math.isfinite(xv)):
@@ -1061,17 +1155,10 @@ def _gen_pc_specs(ctx, rng, n_general, n_modal):
     return out
 
 
-def _static_d0(K, F0, el, n):
-    d0 = np.zeros(n)
-    if len(el) and np.any(F0[el]):
-        d0[el] = np.linalg.solve(K[np.ix_(el, el)], F0[el])
-    return d0
-
-
 def _state_matrix(M, B, K):
     n = K.shape[0]
     Mi = np.linalg.inv(M)
-    A = np.zeros((2 * n, 2 * n))
+    A = np.zeros((2 * n, 2 * n), np.result_type(M, B, K, float))
     A[:n, :n] = -Mi @ B
     A[:n, n:] = -Mi @ K
     A[n:, :n] = np.eye(n)
@@ -1117,6 +1204,224 @@ def _delconj_spec(pc, A):
     return float(res), float(cond)
 
 
+def _drive(drv, gens):
+    """run generator jobs in lockstep: each job yields a list of request lines and is sent the list of replies
+    (one driver process per round, not per job); returns the jobs' return values in order"""
+    results = [None] * len(gens)
+    active = {}
+    for i, g in enumerate(gens):
+        try:
+            active[i] = (g, next(g))
+        except StopIteration as e:
+            results[i] = e.value
+    while active:
+        order = list(active)
+        flat = [r for i in order for r in active[i][1]]
+        rep = drv.ask(flat)
+        pos, nxt = 0, {}
+        for i in order:
+            g, reqs = active[i]
+            mine = rep[pos:pos + len(reqs)]
+            pos += len(reqs)
+            try:
+                nxt[i] = (g, g.send(mine))
+            except StopIteration as e:
+                results[i] = e.value
+        active = nxt
+    return results
+
+
+def _fvals(r, what):
+    if not r.startswith("ok"):
+        raise Infra("model refuses %s: %s" % (what, r[:120]))
+    return np.array([unbits(t) for t in r.split()[1:]])
+
+
+def _qvals(r, what):
+    """`ok n/d n/d …` -> list of Fractions"""
+    if not r.startswith("ok"):
+        raise Infra("model refuses %s: %s" % (what, r[:120]))
+    out = []
+    for t in r.split()[1:]:
+        if "/" in t:
+            a, b = t.split("/")
+            out.append(Fraction(int(a), int(b)))
+        else:
+            out.append(t)
+    return out
+
+
+def _job_static_msolve(M, K, F, el, extra, static_wanted):
+    """round 1 of the coupled jobs: the static initial state of the elastic rows over the rationals (`staticc`),
+    M^-1 F on the index sets of `extra` at Float (`msolve`).  Yields one request list; returns (x | None, [M^-1 F …])"""
+    reqs = []
+    if static_wanted:
+        ee = np.ix_(el, el)
+        reqs.append("staticc %d %s %s" % (len(el), _fmat(K[ee]), _fmat(F[el, 0])))
+    for idx in extra:
+        if M is not None and len(idx):
+            reqs.append("msolve %d %s %d %s" % (len(idx), _fmat(M[np.ix_(idx, idx)]), F.shape[1], _fmat(F[idx])))
+    rep = yield reqs
+    rep = list(rep)
+    x = None
+    if static_wanted:
+        r = rep.pop(0)
+        if r == "singular":
+            return "singular", None
+        x = np.array([float(q) for q in _qvals(r, "a static initial state")])
+    sols = []
+    for idx in extra:
+        if M is not None and len(idx):
+            r = rep.pop(0)
+            if r == "singular":
+                return "singular", None
+            sols.append(_fvals(r, "a mass solve").reshape(len(idx), F.shape[1]))
+        else:
+            sols.append(F[idx].copy())
+    return x, sols
+
+
+def _job_unc_coupled(ctx, ts, M, B, K, F, d0, v0, static, tag="pc"):
+    """the Lean model of SolveUnc's coupled path on the matrices the solver works with (`M` None: identity), driven
+    by the implementation's own pc.lam / ur / ur_inv; every linear solve is done by the model (Gauss elimination:
+    static initial state over Q, M^-1 F and the acceleration at Float).
+    Returns {"d","v","a","cond"} | ("skip", why) | ("disagree", stream, impl, model)."""
+    n, nt = F.shape
+    h, o = ts.h, ts.order
+    el, rb, kd = _idx(ts.el, n), _idx(ts.rb, n), _idx(ts.kdof, n)
+    if kd != el:
+        return ("disagree", tag + "-kdof", kd, el)
+    pc = ts.pc
+    Mm = np.eye(n) if M is None else M
+    cond = 1.0
+    if el:
+        ee = np.ix_(el, el)
+        sp = _delconj_spec(pc, _state_matrix(Mm[ee], B[ee], K[ee]))
+        if isinstance(sp, str):
+            return ("skip", tag + ": " + sp)
+        res, c = sp
+        if c > 1e6 or not pc.eig_success:
+            return ("skip", tag + ": eigenvectors ill conditioned (cond > 1e6)")
+        grade = _slow_mode_grade(pc.lam, h)
+        if grade is None:
+            return ("skip", tag + ": a mode with |lam| h < 1e-3 (cancellation in Ae, Be: out of the conditioning domain)")
+        cond = c * grade
+        ctx.count(tag + ":spec-checked")
+        _note(tag + "-eig-spec-residual-over-cond", res / max(10.0, c))
+        if not res <= 1e-9 * max(10.0, c):
+            # the implementation's own decomposition does not satisfy the hypotheses of delconj_recovers
+            return ("disagree", tag + "-eig-spec", {"residual": res, "cond": c}, "<= 1e-9*cond")
+        if np.any(np.abs(np.asarray(pc.lam)) < 5e-5):
+            ctx.count(tag + ":small-eigenvalue-branch")
+    want_static = bool(d0 is None and static and el)
+    x, sols = yield from _job_static_msolve(M, K, F, el, [el, rb], want_static)
+    if isinstance(x, str):
+        return ("disagree", tag + "-singular", "a solution", "the model's elimination meets a zero pivot")
+    imf, rbf = sols
+    dm0 = d0.copy() if d0 is not None else np.zeros(n)
+    if want_static:
+        dm0[el] = x
+        ctx.count(tag + ":static-by-model")
+    vm0 = v0.copy() if v0 is not None else np.zeros(n)
+    reqs = []
+    if el and nt:
+        N = len(pc.lam)
+        reqs.append("cpl %d %s %d %d %s %s %s %s %s %s %s %d %s" % (
+            o, bits(h), len(el), N, _cmat(pc.lam), _cmat(pc.ur_v), _cmat(pc.ur_d), _cmat(pc.ur_inv_v),
+            _cmat(pc.ur_inv_d), _fmat(dm0[el]), _fmat(vm0[el]), nt, _fmat(imf)))
+    for i, g in enumerate(rb):
+        reqs.append("rbrun %d %s %d %s %s %s" % (o, bits(h), nt, bits(dm0[g]), bits(vm0[g]), _fmat(rbf[i])))
+    rep = list((yield reqs))
+    d, v, a = np.zeros((n, nt)), np.zeros((n, nt)), np.zeros((n, nt))
+    if el and nt:
+        xx = _fvals(rep.pop(0), "a coupled system")
+        d[el] = xx[: len(el) * nt].reshape(len(el), nt)
+        v[el] = xx[len(el) * nt:].reshape(len(el), nt)
+    for i, g in enumerate(rb):
+        xx = _fvals(rep.pop(0), "a rigid-body run")
+        d[g], v[g] = xx[:nt], xx[nt:]
+    if el and nt:
+        ee = np.ix_(el, el)
+        rep = yield ["accelc %d %s %s %s %d %s %s %s" % (
+            len(el), "none" if M is None else "mat " + _fmat(M[ee]), _fmat(B[ee]), _fmat(K[ee]), nt,
+            _fmat(d[el]), _fmat(v[el]), _fmat(F[el]))]
+        if rep[0] == "singular":
+            return ("disagree", tag + "-singular", "an acceleration", "the model's elimination meets a zero pivot")
+        a[el] = _fvals(rep[0], "an acceleration").reshape(len(el), nt)
+    if rb:
+        a[rb] = rbf
+    return {"d": d, "v": v, "a": a, "cond": cond}
+
+
+def _job_exp2(ctx, ts, M, B, K, F, d0, v0, static, tag="exp2"):
+    """the Lean model of SolveExp2.tsolve on the matrices the solver works with, driven by its own E, P, Q; linear
+    solves by the model.  rf rows (uncoupled only) are the static solution F / k."""
+    n, nt = F.shape
+    h, o = ts.h, ts.order
+    kd, el, rf = _idx(ts.kdof, n), _idx(ts.el, n), _idx(ts.rf, n)
+    if not kd:
+        return ("skip", tag + ": no dynamic equation")
+    Mm = np.eye(n) if M is None else M
+    ks = len(kd)
+    kk_ = np.ix_(kd, kd)
+    A = _state_matrix(Mm[kk_], B[kk_], K[kk_])
+    E = np.block([[ts.E_vv, ts.E_vd], [ts.E_dv, ts.E_dd]])
+    P = np.asarray(ts.P)
+    Q = np.asarray(ts.Q) if o == 1 else None
+    Er, Pr, Qr = _epq_reference(A, h, o, ks)
+    es = max(1.0, np.abs(Er).max())
+    res = max(np.abs(E - Er).max() / es, np.abs(P - Pr).max() / (h * es),
+              0.0 if Q is None else np.abs(Q - Qr).max() / (h * es))
+    ctx.count(tag + ":spec-checked")
+    _note(tag + "-epq-spec-residual", res)
+    if not res <= 1e-8:
+        # the implementation's own E, P, Q do not satisfy the hypotheses of exp2_step_exact
+        return ("disagree", tag + "-epq-spec", {"residual": float(res)}, "<= 1e-8")
+    want_static = bool(d0 is None and static and el)
+    x, sols = yield from _job_static_msolve(M, K, F, el, [kd], want_static)
+    if isinstance(x, str):
+        return ("disagree", tag + "-singular", "a solution", "the model's elimination meets a zero pivot")
+    imf = sols[0]
+    dm0 = d0.copy() if d0 is not None else np.zeros(n)
+    if want_static:
+        dm0[el] = x
+        ctx.count(tag + ":static-by-model")
+    vm0 = v0.copy() if v0 is not None else np.zeros(n)
+    rep = yield ["exp2 %d %d %s %s %s%s %s %d %s" % (
+        o, ks, _fmat(E), _fmat(P), (_fmat(Q) + " ") if o == 1 else "", _fmat(dm0[kd]), _fmat(vm0[kd]), nt, _fmat(imf))]
+    xx = _fvals(rep[0], "an exp2 system")
+    d, v, a = np.zeros((n, nt)), np.zeros((n, nt)), np.zeros((n, nt))
+    d[kd] = xx[: ks * nt].reshape(ks, nt)
+    v[kd] = xx[ks * nt:].reshape(ks, nt)
+    rep = yield ["accelc %d %s %s %s %d %s %s %s" % (
+        ks, "none" if M is None else "mat " + _fmat(M[kk_]), _fmat(B[kk_]), _fmat(K[kk_]), nt,
+        _fmat(d[kd]), _fmat(v[kd]), _fmat(F[kd]))]
+    if rep[0] == "singular":
+        return ("disagree", tag + "-singular", "an acceleration", "the model's elimination meets a zero pivot")
+    a[kd] = _fvals(rep[0], "an acceleration").reshape(ks, nt)
+    for g in rf:
+        d[g] = F[g] / K[g, g]
+    return {"d": d, "v": v, "a": a, "cond": 1.0, "kd": kd, "rf": rf}
+
+
+def _compare_hist(sol, m, h, rows=None):
+    """largest scaled differences of d, v, a between the implementation's solution and the model's: (name, error) of
+    the first quantity above `tol`, else None; also returns the worst error"""
+    d, v, a = m["d"], m["v"], m["a"]
+    rows = list(range(d.shape[0])) if rows is None else rows
+    sd = np.abs(d[rows]).max() + h * np.abs(v).max() + 1e-300
+    sv = np.abs(v).max() + sd / h
+    sa = np.abs(a).max() + sv / h
+    out = []
+    for nm, iv, mv, sc in (("d", np.asarray(sol.d)[rows], d[rows], sd), ("v", sol.v, v, sv), ("a", sol.a, a, sa)):
+        iv = np.asarray(iv)
+        if iv.shape != mv.shape:
+            out.append((nm, float("inf")))
+            continue
+        out.append((nm, float(np.abs(iv - mv).max() / sc) if mv.size else 0.0))
+    return out
+
+
 def _corr_pc(ctx, drv):
     ode = _ode()
     rng = ctx.np_rng(7)
@@ -1146,93 +1451,26 @@ def _corr_pc(ctx, drv):
         if ts.unc:
             ctx.skip("pc: system turned out uncoupled")
             continue
-        el, rb = _idx(ts.el, n), _idx(ts.rb, n)
-        kd = _idx(ts.kdof, n)
-        if kd != el:
-            ctx.disagree("pc-kdof", inp, kd, el)
-            continue
-        pc = ts.pc
-        nt = F.shape[1]
-        dm0 = d0.copy() if d0 is not None else (_static_d0(K, F[:, 0], el, n) if s["static"] else np.zeros(n))
-        vm0 = v0.copy() if v0 is not None else np.zeros(n)
-        job = {"s": s, "inp": inp, "sol": sol, "el": el, "rb": rb, "req": [], "cond": 1.0, "M": M, "B": B, "K": K,
-               "F": F, "d0": dm0, "v0": vm0}
+        rb = _idx(ts.rb, n)
         if bool(rb) != bool(s.get("blockphi")):
             ctx.disagree("pc-rb-detection", inp, rb, "rigid-body modes exactly for block mode shapes")
             continue
-        if el:
-            Mee, Bee, Kee = (X[np.ix_(el, el)] for X in (M, B, K))
-            A = _state_matrix(Mee, Bee, Kee)
-            sp = _delconj_spec(pc, A)
-            if isinstance(sp, str):
-                ctx.skip("pc: " + sp)
-                continue
-            res, cond = sp
-            if cond > 1e6 or not pc.eig_success:
-                ctx.skip("pc: eigenvectors ill conditioned (cond > 1e6)")
-                continue
-            grade = _slow_mode_grade(pc.lam, h)
-            if grade is None:
-                ctx.skip("pc: a mode with |lam| h < 1e-3 (cancellation in Ae, Be: out of the conditioning domain)")
-                continue
-            job["cond"] = cond * grade
-            ctx.count("pc:spec-checked")
-            _note("pc-eig-spec-residual-over-cond", res / max(10.0, cond))
-            if not res <= 1e-9 * max(10.0, cond):
-                # the implementation's own decomposition does not satisfy the hypotheses of delconj_recovers
-                ctx.disagree("pc-eig-spec", inp, {"residual": res, "cond": cond}, "<= 1e-9*cond")
-                continue
-            imf = np.linalg.solve(Mee, F[el])
-            ne, N = len(el), len(pc.lam)
-            job["req"].append("cpl %d %s %d %d %s %s %s %s %s %s %s %d %s" % (
-                o, bits(h), ne, N, _cmat(pc.lam), _cmat(pc.ur_v), _cmat(pc.ur_d), _cmat(pc.ur_inv_v),
-                _cmat(pc.ur_inv_d), _fmat(dm0[el]), _fmat(vm0[el]), nt, _fmat(imf)))
-            if np.any(np.abs(np.asarray(pc.lam)) < 5e-5):
-                ctx.count("pc:small-eigenvalue-branch")
-        if rb:
-            rbf = np.linalg.solve(M[np.ix_(rb, rb)], F[rb])
-            job["rbf"] = rbf
-            for i, g in enumerate(rb):
-                job["req"].append("rbrun %d %s %d %s %s %s" % (o, bits(h), nt, bits(dm0[g]), bits(vm0[g]), _fmat(rbf[i])))
-        jobs.append(job)
-    flat = [r for j in jobs for r in j["req"]]
-    rep = iter(drv.ask(flat))
+        jobs.append((s, inp, sol, _job_unc_coupled(ctx, ts, M, B, K, F, d0, v0, s["static"])))
+    results = _drive(drv, [j[3] for j in jobs])
     worst = 0.0
-    for j in jobs:
-        s, sol, el, rb, F = j["s"], j["sol"], j["el"], j["rb"], j["F"]
-        n, nt = s["n"], F.shape[1]
-        d, v = np.zeros((n, nt)), np.zeros((n, nt))
-        bad = None
-        if el:
-            r = next(rep)
-            if not r.startswith("ok "):
-                raise Infra("model refuses a pc-stream system: " + r)
-            x = np.array([unbits(t) for t in r.split()[1:]])
-            d[el] = x[: len(el) * nt].reshape(len(el), nt)
-            v[el] = x[len(el) * nt:].reshape(len(el), nt)
-        for i, g in enumerate(rb):
-            r = next(rep)
-            x = np.array([unbits(t) for t in r.split()[1:]])
-            d[g], v[g] = x[:nt], x[nt:]
-        a = np.zeros((n, nt))
-        M, B, K = j["M"], j["B"], j["K"]
-        if el:
-            ee = np.ix_(el, el)
-            a[el] = np.linalg.solve(M[ee], F[el] - B[ee] @ v[el] - K[ee] @ d[el])
-        if rb:
-            a[rb] = j["rbf"]
-        sd = np.abs(d).max() + s["h"] * np.abs(v).max() + 1e-300
-        sv = np.abs(v).max() + sd / s["h"]
-        sa = np.abs(a).max() + sv / s["h"]
-        tol = 1e-9 * max(10.0, j["cond"])
-        for nm, iv, mv, sc in (("d", sol.d, d, sd), ("v", sol.v, v, sv), ("a", sol.a, a, sa)):
-            e = float(np.abs(np.asarray(iv) - mv).max() / sc)
-            worst = max(worst, e / max(10.0, j["cond"]))
+    for (s, inp, sol, _), m in zip(jobs, results):
+        if isinstance(m, tuple):
+            if m[0] == "skip":
+                ctx.skip(m[1])
+            else:
+                ctx.disagree(m[1], inp, m[2], m[3])
+            continue
+        tol = 1e-9 * max(10.0, m["cond"])
+        for nm, e in _compare_hist(sol, m, s["h"]):
+            worst = max(worst, e / max(10.0, m["cond"]))
             if not e <= tol:
-                bad = (nm, e)
+                ctx.disagree("pc-" + nm, inp, {nm: e}, {"tolerance": tol})
                 break
-        if bad:
-            ctx.disagree("pc-" + bad[0], j["inp"], {bad[0]: bad[1]}, {"tolerance": tol})
     ctx.sample({"stream": "pc", "worst_error_over_cond": float("%.2e" % worst), "systems": len(jobs)})
 
 
@@ -1270,7 +1508,7 @@ def _corr_exp2(ctx, drv):
                       "M": (np.eye(u["n"]) if m is None else m).tolist(), "B": b.tolist(), "K": k.tolist(),
                       "F": u["F"], "d0": u["d0"], "v0": u["v0"], "static": u["static"], "rb": u["rb"], "rf": u["rf"],
                       "unc": {"m": u["m"], "b": u["b"], "k": u["k"], "pack": u["pack"]}, "usys": u})
-    jobs, reqs = [], []
+    jobs = []
     for s in specs:
         M, B, K, F = (np.array(s[x], float) for x in ("M", "B", "K", "F"))
         n, h, o = s["n"], s["h"], s["order"]
@@ -1289,74 +1527,566 @@ def _corr_exp2(ctx, drv):
                     u = s["unc"]
                     mm, bb, kk = _mats({"m": u["m"], "b": u["b"], "k": u["k"]}, u["pack"])
                     ts = ode.SolveExp2(mm, bb, kk, h, rb=s["rb"], rf=s["rf"] or None, order=o)
+                    Mmod = None if mm is None else M
                 else:
                     ts = ode.SolveExp2(M, B, K, h, order=o)
+                    Mmod = M
                 sol = ts.tsolve(F, d0, v0, static_ic=s["static"])
         except Exception as e:  # noqa: BLE001
             ctx.disagree("exp2-raises", inp, "%s: %s" % (type(e).__name__, str(e)[:80]), "a solution")
             continue
-        kd, el, rf = _idx(ts.kdof, n), _idx(ts.el, n), _idx(ts.rf, n)
-        if not kd:
-            ctx.skip("exp2: no dynamic equation")
-            continue
-        ks, nt = len(kd), F.shape[1]
-        kk_ = np.ix_(kd, kd)
-        A = _state_matrix(M[kk_], B[kk_], K[kk_])
-        E = np.block([[ts.E_vv, ts.E_vd], [ts.E_dv, ts.E_dd]])
-        P = np.asarray(ts.P)
-        Q = np.asarray(ts.Q) if o == 1 else None
-        Er, Pr, Qr = _epq_reference(A, h, o, ks)
-        es = max(1.0, np.abs(Er).max())
-        res = max(np.abs(E - Er).max() / es, np.abs(P - Pr).max() / (h * es),
-                  0.0 if Q is None else np.abs(Q - Qr).max() / (h * es))
-        ctx.count("exp2:spec-checked")
-        _note("exp2-epq-spec-residual", res)
-        if not res <= 1e-8:
-            # the implementation's own E, P, Q do not satisfy the hypotheses of exp2_step_exact
-            ctx.disagree("exp2-epq-spec", inp, {"residual": float(res)}, "<= 1e-8")
-            continue
-        if d0 is not None:
-            dm0 = d0.copy()
-        elif s["static"]:
-            dm0 = _static_d0(K, F[:, 0], el, n)
-        else:
-            dm0 = np.zeros(n)
-        vm0 = v0.copy() if v0 is not None else np.zeros(n)
-        imf = np.linalg.solve(M[kk_], F[kd])
-        reqs.append("exp2 %d %d %s %s %s%s %s %d %s" % (
-            o, ks, _fmat(E), _fmat(P), (_fmat(Q) + " ") if o == 1 else "", _fmat(dm0[kd]), _fmat(vm0[kd]), nt, _fmat(imf)))
-        jobs.append((s, inp, sol, kd, rf, M, B, K, F))
-    rep = drv.ask(reqs)
+        jobs.append((s, inp, sol, _job_exp2(ctx, ts, Mmod, B, K, F, d0, v0, s["static"])))
+    results = _drive(drv, [j[3] for j in jobs])
     worst = 0.0
-    for (s, inp, sol, kd, rf, M, B, K, F), r in zip(jobs, rep):
-        if not r.startswith("ok "):
-            raise Infra("model refuses an exp2-stream system: " + r)
-        n, nt, ks = s["n"], F.shape[1], len(kd)
-        x = np.array([unbits(t) for t in r.split()[1:]])
-        d, v, a = np.zeros((n, nt)), np.zeros((n, nt)), np.zeros((n, nt))
-        d[kd] = x[: ks * nt].reshape(ks, nt)
-        v[kd] = x[ks * nt:].reshape(ks, nt)
-        kk_ = np.ix_(kd, kd)
-        a[kd] = np.linalg.solve(M[kk_], F[kd] - B[kk_] @ v[kd] - K[kk_] @ d[kd])
-        for g in rf:
-            d[g] = F[g] / K[g, g]
-        sd = np.abs(d[kd]).max() + s["h"] * np.abs(v).max() + 1e-300
-        sv = np.abs(v).max() + sd / s["h"]
-        sa = np.abs(a).max() + sv / s["h"]
+    for (s, inp, sol, _), m in zip(jobs, results):
+        if isinstance(m, tuple):
+            if m[0] == "skip":
+                ctx.skip(m[1])
+            else:
+                ctx.disagree(m[1], inp, m[2], m[3])
+            continue
         bad = None
-        for nm, iv, mv, sc in (("d", np.asarray(sol.d)[kd], d[kd], sd), ("v", sol.v, v, sv), ("a", sol.a, a, sa)):
-            e = float(np.abs(np.asarray(iv) - mv).max() / sc)
+        for nm, e in _compare_hist(sol, m, s["h"], rows=m["kd"]):
             worst = max(worst, e)
             if not e <= 1e-9:
                 bad = (nm, e)
                 break
+        rf = m["rf"]
         if bad is None and rf:
-            e = float(np.abs(np.asarray(sol.d)[rf] - d[rf]).max() / (np.abs(d[rf]).max() + 1e-300))
+            e = float(np.abs(np.asarray(sol.d)[rf] - m["d"][rf]).max() / (np.abs(m["d"][rf]).max() + 1e-300))
             if not e <= 1e-12:
                 bad = ("d-rf", e)
         if bad:
             ctx.disagree("exp2-" + bad[0], inp, {bad[0]: bad[1]}, {"tolerance": 1e-9})
     ctx.sample({"stream": "exp2", "worst_scaled_error": float("%.2e" % worst), "systems": len(jobs)})
+
+
+# ---------------------------------------------------------------------------------------
+# stream (x): SolveExp1.tsolve.  (x-num) on general first-order systems with the implementation's own E, P, Q (their
+# specification measured against scipy's expm), force arrays of dtype float64 / int64 / float32; (x-exact) the
+# recurrence itself over the rationals: E, P, Q, A replaced by small dyadic matrices (public members of the
+# solver), small whole-numbered forces, so that no operation of the implementation rounds and the histories must be
+# EQUAL to the model's evaluated over Q.
+
+
+def _epq_full_reference(A, h, order):
+    E, P, Q = _epq_reference(A, h, order, A.shape[0])
+    return E, P, Q
+
+
+def _gen_exp1(rng):
+    n = int(rng.integers(1, 6))
+    h = float(10 ** rng.uniform(-2.5, -0.5))
+    style = str(rng.choice(["second-order", "random", "nilpotent"]))
+    if style == "second-order":
+        g = _gen_general(rng)
+        while g["n"] > 3:
+            g = _gen_general(rng)
+        n, h = 2 * g["n"], g["h"]
+        A = _state_matrix(*(np.array(g[x], float) for x in ("M", "B", "K")))
+    elif style == "nilpotent":
+        A = np.triu(rng.standard_normal((n, n)), 1) / h / 4
+    else:
+        style = "random"
+        A = rng.standard_normal((n, n)) / h / 4 - np.eye(n) * rng.uniform(0, 1) / h
+    nt = int(rng.integers(1, 16))
+    dt = str(rng.choice(["float64", "float64", "int64", "float32"]))
+    F = rng.standard_normal((n, nt)) * 10 ** rng.uniform(-1, 2)
+    if dt != "float64":
+        F = np.round(F * 4)
+        if dt == "float32":
+            F = F / 8
+    return {"kind": "exp1", "n": n, "h": h, "order": int(rng.integers(0, 2)), "style": style, "A": A.tolist(),
+            "F": F.tolist(), "dtype": dt, "d0": None if rng.random() < 0.35 else [float(x) for x in rng.standard_normal(n)]}
+
+
+def _exp1_request(op, s, A, E, P, Q):
+    n, nt = np.asarray(s["F"]).shape if np.asarray(s["F"]).ndim == 2 else (s["n"], 0)
+    t = [op, str(s["order"]), s["dtype"], str(n), _fmat(A), _fmat(E), _fmat(P)]
+    if s["order"] == 1:
+        t.append(_fmat(Q))
+    t += ["n"] if s["d0"] is None else ["y", _fmat(s["d0"])]
+    t += [str(nt), _fmat(np.asarray(s["F"], float))]
+    return " ".join(x for x in t if x != "")
+
+
+def _corr_exp1(ctx, drv):
+    ode = _ode()
+    rng = ctx.np_rng(9)
+    # ---- numeric, the implementation's own E, P, Q -------------------------------------------------
+    specs = [_gen_exp1(rng) for _ in range(ctx.pick(300, 3000))]
+    jobs, reqs = [], []
+    for s in specs:
+        A = np.array(s["A"], float)
+        F = np.array(s["F"], float).reshape(s["n"], -1).astype(s["dtype"])
+        inp = dict(s, stream="exp1")
+        ctx.case(json.dumps(s, sort_keys=True), nontrivial=F.shape[1] >= 3, branch="exp1:order%d" % s["order"])
+        ctx.count("exp1:dtype-" + s["dtype"])
+        ctx.count("exp1:style-" + s["style"])
+        ctx.count("exp1:d0-" + ("given" if s["d0"] is not None else "none"))
+        try:
+            with warnings.catch_warnings():
+                warnings.simplefilter("ignore")
+                ts = ode.SolveExp1(A, s["h"], order=s["order"])
+                sol = ts.tsolve(F, _arr(s["d0"]))
+        except Exception as e:  # noqa: BLE001
+            ctx.disagree("exp1-raises", inp, "%s: %s" % (type(e).__name__, str(e)[:80]), "a solution")
+            continue
+        E, P = np.asarray(ts.E), np.asarray(ts.P)
+        Q = np.asarray(ts.Q) if s["order"] == 1 else None
+        Er, Pr, Qr = _epq_full_reference(A, s["h"], s["order"])
+        es = max(1.0, np.abs(Er).max())
+        res = max(np.abs(E - Er).max() / es, np.abs(P - Pr).max() / (s["h"] * es),
+                  0.0 if Q is None else np.abs(Q - Qr).max() / (s["h"] * es))
+        ctx.count("exp1:spec-checked")
+        _note("exp1-epq-spec-residual", res)
+        if not res <= 1e-8:
+            # the implementation's own E, P, Q do not satisfy the hypotheses of exp1_step_exact
+            ctx.disagree("exp1-epq-spec", inp, {"residual": float(res)}, "<= 1e-8")
+            continue
+        reqs.append(_exp1_request("exp1", s, A, E, P, Q))
+        jobs.append((s, inp, sol, A, F))
+    worst = 0.0
+    for (s, inp, sol, A, F), r in zip(jobs, drv.ask(reqs)):
+        t = r.split()
+        if t[0] != "ok":
+            raise Infra("model refuses an exp1-stream system: " + r[:100])
+        n, nt = F.shape
+        if (str(np.asarray(sol.d).dtype), str(np.asarray(sol.v).dtype)) != (t[1], t[2]):
+            ctx.disagree("exp1-dtype", inp, [str(np.asarray(sol.d).dtype), str(np.asarray(sol.v).dtype)], t[1:3])
+            continue
+        x = np.array([unbits(u) for u in t[3:]])
+        d, v = x[: n * nt].reshape(n, nt), x[n * nt:].reshape(n, nt)
+        sd = np.abs(d).max() + 1e-300 if d.size else 1.0
+        sv = (np.abs(A).max() * n * sd + np.abs(F).max() + 1e-300) if d.size else 1.0
+        for nm, iv, mv, sc in (("d", sol.d, d, sd), ("v", sol.v, v, sv)):
+            e = float(np.abs(np.asarray(iv, float) - mv).max() / sc) if mv.size else 0.0
+            worst = max(worst, e)
+            if not e <= 1e-9:
+                ctx.disagree("exp1-" + nm, inp, {nm: e}, {"tolerance": 1e-9})
+                break
+    ctx.sample({"stream": "exp1", "worst_scaled_error": float("%.2e" % worst), "systems": len(jobs)})
+    # ---- exact, dyadic E, P, Q, A ----------------------------------------------------------------------
+    jobs, reqs = [], []
+    for _ in range(ctx.pick(150, 1500)):
+        n = int(rng.integers(1, 4))
+        nt = int(rng.integers(1, 7))
+        order = int(rng.integers(0, 2))
+        dy = lambda shape, lim, den: rng.integers(-lim, lim + 1, shape) / den  # noqa: E731
+        A, E, P, Q = dy((n, n), 6, 4.0), dy((n, n), 6, 4.0), dy((n, n), 6, 4.0), dy((n, n), 6, 4.0)
+        dt = str(rng.choice(["float64", "int64", "float32"]))
+        F = rng.integers(-4, 5, (n, nt)).astype(float)
+        if dt == "float64":
+            F = F / 2
+        d0 = None if rng.random() < 0.4 else [float(x) for x in dy(n, 5, 2.0)]
+        s = {"kind": "exp1x", "n": n, "h": 0.5, "order": order, "A": A.tolist(), "E": E.tolist(), "P": P.tolist(),
+             "Q": Q.tolist(), "F": F.tolist(), "dtype": dt, "d0": d0}
+        inp = dict(s, stream="exp1x")
+        ctx.case(json.dumps(s, sort_keys=True), nontrivial=nt >= 2, branch="exp1x:order%d" % order)
+        ctx.count("exp1x:dtype-" + dt)
+        if nt == 1:
+            ctx.count("exp1x:single-sample")
+        try:
+            ts = ode.SolveExp1(A, 0.5, order=order)
+            ts.E, ts.P, ts.Q = E.copy(), P.copy(), (Q.copy() if order == 1 else 0.0)
+            sol = ts.tsolve(F.reshape(n, nt).astype(dt), _arr(d0))
+        except Exception as e:  # noqa: BLE001
+            ctx.disagree("exp1x-raises", inp, "%s: %s" % (type(e).__name__, str(e)[:80]), "a solution")
+            continue
+        reqs.append(_exp1_request("exp1x", dict(s, F=F.reshape(n, nt).tolist()), A, E, P, Q))
+        jobs.append((s, inp, sol, n, nt))
+    for (s, inp, sol, n, nt), r in zip(jobs, drv.ask(reqs)):
+        t = r.split()
+        if t[0] != "ok":
+            raise Infra("model refuses an exp1x-stream system: " + r[:100])
+        if (str(np.asarray(sol.d).dtype), str(np.asarray(sol.v).dtype)) != (t[1], t[2]):
+            ctx.disagree("exp1x-dtype", inp, [str(np.asarray(sol.d).dtype), str(np.asarray(sol.v).dtype)], t[1:3])
+            continue
+        q = [Fraction(int(a), int(b)) for a, b in (u.split("/") for u in t[3:])]
+        impl = [Fraction(float(x)) for x in np.asarray(sol.d, float).ravel()] + \
+               [Fraction(float(x)) for x in np.asarray(sol.v, float).ravel()]
+        if np.asarray(sol.d).shape != (n, nt) or impl != q:
+            k_ = next((i for i, (a, b) in enumerate(zip(impl, q)) if a != b), -1)
+            ctx.disagree("exp1x-exact", inp, {"first-difference-at": k_, "impl": str(impl[k_]) if k_ >= 0 else "shape"},
+                         {"model": str(q[k_]) if k_ >= 0 else [n, nt]})
+
+
+# ---------------------------------------------------------------------------------------
+# stream (e): pre_eig=True.  The Lean model of `_do_pre_eig` / `_init_dva` / `_solution` gets the implementation's own
+# mode shapes phi (the result of la.eigh is an input of the model; its specification phi' M phi = 1,
+# phi' K phi = diag(w) is measured), computes the modal damping, the modal force and the modal initial conditions
+# (la.solve(phi, d0) by the model's elimination); the modal problem is then solved by the model of the path the
+# solver takes (uncoupled closed form / complex-eigenvalue path / SolveExp2) and mapped back.
+# (e-exact): diagonal systems with masses 4^j and dyadic stiffness: la.eigh is exact there (phi = a signed, scaled
+# permutation), the whole first sample (initial state + acceleration, nt = 1) is compared EXACTLY over Q.
+
+
+def _gen_preeig(rng):
+    g = _gen_general(rng)
+    while g["style"] == "skew-on-zero-stiffness":
+        g = _gen_general(rng)
+    n = g["n"]
+    M, B, K = (np.array(g[x], float) for x in ("M", "B", "K"))
+    K = (K + K.T) / 2
+    mform = str(rng.choice(["none", "vec", "mat"]))
+    if mform == "none":
+        M = np.eye(n)
+    elif mform == "vec":
+        M = np.diag(rng.uniform(0.3, 3.0, n))
+    bform = str(rng.choice(["vec", "mat"]))
+    if bform == "vec":
+        B = np.diag(np.abs(np.diag(B)) + rng.uniform(0, 0.5, n))
+    if g["nz"]:
+        # zero-stiffness DOF: rigid-body modes after the transformation only if the damping leaves them alone
+        B[: g["nz"], :] = 0.0
+        B[:, : g["nz"]] = 0.0
+    g.update(kind="preeig", M=M.tolist(), B=B.tolist(), K=K.tolist(), mform=mform, bform=bform,
+             solver=str(rng.choice(["SolveUnc", "SolveExp2"])),
+             static=bool(g["d0"] is None and rng.random() < 0.5))
+    return g
+
+
+def _preeig_args(s):
+    M, B, K = (np.array(s[x], float) for x in ("M", "B", "K"))
+    m = None if s["mform"] == "none" else (np.diag(M).copy() if s["mform"] == "vec" else M)
+    b = np.diag(B).copy() if s["bform"] == "vec" else B
+    return m, b, K
+
+
+def _job_preeig(ctx, s, ts, sol):
+    M, B, K, F = (np.array(s[x], float) for x in ("M", "B", "K", "F"))
+    n, nt = F.shape
+    h = s["h"]
+    d0, v0 = _arr(s["d0"]), _arr(s["v0"])
+    phi = np.asarray(ts.phi, float)
+    # the specification of la.eigh, measured on the implementation's own phi
+    G = phi.T @ M @ phi
+    W = phi.T @ K @ phi
+    w = np.diag(W).copy()
+    ks = max(1.0, np.abs(w).max())
+    cond = float(np.linalg.cond(phi))
+    res = max(np.abs(G - np.eye(n)).max(), np.abs(W - np.diag(w)).max() / ks)
+    _note("pe-eigh-spec-residual", res)
+    ctx.count("pe:eigh-spec-checked")
+    if not res <= 1e-9 * max(10.0, cond):
+        # the implementation's own mode shapes do not satisfy the hypotheses of pre_eig_solution_is_solution
+        return ("disagree", "pe-eigh-spec", {"residual": float(res), "cond": cond}, "phi' M phi = 1, phi' K phi diagonal")
+    if ts.m is not None:
+        return ("disagree", "pe-mass", "m kept", "m = None after the transformation")
+    breq = "vec " + _fmat(np.diag(B)) if s["bform"] == "vec" else "mat " + _fmat(B)
+    rep = yield ["pe %d %s %s %s %s %d %s" % (
+        n, breq, _fmat(phi), "n" if d0 is None else "y " + _fmat(d0), "n" if v0 is None else "y " + _fmat(v0),
+        nt, _fmat(F))]
+    if rep[0] == "singular":
+        return ("disagree", "pe-singular", "a solution", "phi singular for the model's elimination")
+    t = rep[0].split()[1:]
+    bm = np.array([unbits(x) for x in t[: n * n]]).reshape(n, n)
+    Fm = np.array([unbits(x) for x in t[n * n: n * n + n * nt]]).reshape(n, nt)
+    t = t[n * n + n * nt:]
+    q = []
+    for _ in range(2):
+        if t[0] == "n":
+            q.append(None)
+            t = t[1:]
+        else:
+            q.append(np.array([unbits(x) for x in t[1: n + 1]]))
+            t = t[n + 1:]
+    q0, qv0 = q
+    Km = np.diag(w)
+    if s["solver"] == "SolveExp2":
+        m = yield from _job_exp2(ctx, ts, None, bm, Km, Fm, q0, qv0, s["static"], tag="pe")
+    elif ts.unc:
+        ctx.count("pe:modal-system-uncoupled")
+        u = {"n": n, "h": h, "m": None, "b": [float(x) for x in np.diag(bm)], "k": [float(x) for x in w],
+             "order": s["order"], "rb": None, "rf": [], "static": s["static"],
+             "d0": None if q0 is None else q0.tolist(), "v0": None if qv0 is None else qv0.tolist(), "F": Fm.tolist()}
+        rep = yield [_sys_request(u)]
+        mm = _sys_reply(rep[0], n, nt)
+        if isinstance(mm, str):
+            return ("disagree", "pe-modal-model-refuses", "a solution", mm)
+        m = {"d": mm[0], "v": mm[1], "a": mm[2], "cond": 1.0}
+    else:
+        m = yield from _job_unc_coupled(ctx, ts, None, bm, Km, Fm, q0, qv0, s["static"], tag="pe")
+    if isinstance(m, tuple):
+        return m
+    rep = yield ["perec %d %s %d %s %s %s" % (n, _fmat(phi), nt, _fmat(m["d"]), _fmat(m["v"]), _fmat(m["a"]))]
+    x = _fvals(rep[0], "a pre_eig recovery")
+    return {"d": x[: n * nt].reshape(n, nt), "v": x[n * nt: 2 * n * nt].reshape(n, nt),
+            "a": x[2 * n * nt:].reshape(n, nt), "cond": max(m["cond"], cond)}
+
+
+def _corr_preeig(ctx, drv):
+    ode = _ode()
+    rng = ctx.np_rng(10)
+    jobs = []
+    for _ in range(ctx.pick(300, 3000)):
+        s = _gen_preeig(rng)
+        inp = dict(s, stream="pe")
+        m, b, K = _preeig_args(s)
+        F = np.array(s["F"], float)
+        ctx.case(json.dumps(s, sort_keys=True), nontrivial=F.shape[1] >= 3, branch="pe:order%d" % s["order"])
+        for tag in ("pe:mass-" + s["mform"], "pe:damping-" + s["bform"], "pe:" + s["solver"],
+                    "pe:d0-" + ("given" if s["d0"] is not None else "none"),
+                    "pe:v0-" + ("given" if s["v0"] is not None else "none")):
+            ctx.count(tag)
+        if s["static"]:
+            ctx.count("pe:static-ic")
+        try:
+            with warnings.catch_warnings():
+                warnings.simplefilter("ignore")
+                ts = getattr(ode, s["solver"])(m, b, K, s["h"], order=s["order"], pre_eig=True)
+                sol = ts.tsolve(F, _arr(s["d0"]), _arr(s["v0"]), static_ic=s["static"])
+        except Exception as e:  # noqa: BLE001
+            ctx.disagree("pe-raises", inp, "%s: %s" % (type(e).__name__, str(e)[:80]), "a solution")
+            continue
+        if not getattr(ts, "pre_eig", False):
+            ctx.disagree("pe-not-done", inp, "pre_eig skipped", "pre_eig performed (a 2-D matrix is present)")
+            continue
+        if _idx(ts.rb, s["n"]):
+            ctx.count("pe:with-rigid-body-modes")
+        jobs.append((s, inp, sol, _job_preeig(ctx, s, ts, sol)))
+    results = _drive(drv, [j[3] for j in jobs])
+    worst = 0.0
+    for (s, inp, sol, _), m in zip(jobs, results):
+        if isinstance(m, tuple):
+            if m[0] == "skip":
+                ctx.skip(m[1])
+            else:
+                ctx.disagree(m[1], inp, m[2], m[3])
+            continue
+        tol = 1e-9 * max(10.0, m["cond"])
+        for nm, e in _compare_hist(sol, m, s["h"]):
+            worst = max(worst, e / max(10.0, m["cond"]))
+            if not e <= tol:
+                ctx.disagree("pe-" + nm, inp, {nm: e}, {"tolerance": tol})
+                break
+    ctx.sample({"stream": "pe", "worst_error_over_cond": float("%.2e" % worst), "systems": len(jobs)})
+    # ---- exact: diagonal systems on which la.eigh is exact -------------------------------------------------------
+    jobs, reqs = [], []
+    for _ in range(ctx.pick(200, 2000)):
+        n = int(rng.integers(2, 6))
+        mform = str(rng.choice(["none", "vec", "mat"]))
+        mass = np.ones(n) if mform == "none" else 4.0 ** rng.integers(-2, 3, n)
+        # distinct modal stiffnesses k/m (so that the eigenvectors are determined), possibly one zero (rigid-body mode)
+        # (powers of two: the static initial state F/k of the modal equations is then a dyadic number as well)
+        wv = 2.0 ** rng.permutation(np.arange(-3, 4))[:n]
+        if rng.random() < 0.4:
+            wv[int(rng.integers(0, n))] = 0.0
+        kd = wv * mass
+        bform = str(rng.choice(["vec", "mat"]))
+        bd = rng.integers(0, 6, n) / 4.0
+        F0 = rng.integers(-4, 5, n).astype(float)
+        if rng.random() < 0.15:
+            F0[:] = 0.0
+        d0 = None if rng.random() < 0.5 else [float(x) for x in rng.integers(-4, 5, n) / 2.0]
+        v0 = None if rng.random() < 0.5 else [float(x) for x in rng.integers(-4, 5, n) / 2.0]
+        s = {"kind": "pex", "n": n, "h": 0.25, "order": int(rng.integers(0, 2)), "mform": mform, "bform": bform,
+             "m": mass.tolist(), "b": bd.tolist(), "k": kd.tolist(), "F0": F0.tolist(), "d0": d0, "v0": v0,
+             "static": bool(rng.random() < 0.5), "solver": str(rng.choice(["SolveUnc", "SolveExp2"]))}
+        inp = dict(s, stream="pex")
+        ctx.case(json.dumps(s, sort_keys=True), nontrivial=True, branch="pex:" + s["solver"])
+        for tag in ("pex:mass-" + mform, "pex:damping-" + bform):
+            ctx.count(tag)
+        if s["static"] and d0 is None:
+            ctx.count("pex:static-ic")
+        if np.any(wv == 0):
+            ctx.count("pex:with-rigid-body-mode")
+        m = None if mform == "none" else (mass.copy() if mform == "vec" else np.diag(mass))
+        b = bd.copy() if bform == "vec" else np.diag(bd)
+        K = np.diag(kd)
+        try:
+            with warnings.catch_warnings():
+                warnings.simplefilter("ignore")
+                ts = getattr(ode, s["solver"])(m, b, K, 0.25, order=s["order"], pre_eig=True)
+                sol = ts.tsolve(F0[:, None], _arr(d0), _arr(v0), static_ic=s["static"])
+        except Exception as e:  # noqa: BLE001
+            ctx.disagree("pex-raises", inp, "%s: %s" % (type(e).__name__, str(e)[:80]), "a solution")
+            continue
+        phi = np.asarray(ts.phi, float)
+        fr = lambda a: [[Fraction(float(x)) for x in row] for row in np.atleast_2d(a)]  # noqa: E731
+        P_, Mq, Kq = fr(phi), fr(np.diag(mass)), fr(K)
+        mul = lambda X, Y: [[sum(X[i][k] * Y[k][j] for k in range(n)) for j in range(n)] for i in range(n)]  # noqa: E731
+        PT = [list(r) for r in zip(*P_)]
+        G, Wq = mul(mul(PT, Mq), P_), mul(mul(PT, Kq), P_)
+        if G != [[Fraction(int(i == j)) for j in range(n)] for i in range(n)] or \
+                any(Wq[i][j] != 0 for i in range(n) for j in range(n) if i != j):
+            # la.eigh not exact here (should not happen on these inputs): leave the case to the numeric stream
+            ctx.skip("pex: la.eigh not exact on a diagonal dyadic system")
+            continue
+        w = [Wq[i][i] for i in range(n)]
+        ctx.count("pex:eigh-exact")
+        reqs.append("pex %d %s %s %s %s %s %s %s" % (
+            n, ("vec " + _fmat(bd)) if bform == "vec" else ("mat " + _fmat(np.diag(bd))), _fmat(phi),
+            _fmat([float(x) for x in w]), "1" if s["static"] else "0", "n" if d0 is None else "y " + _fmat(d0),
+            "n" if v0 is None else "y " + _fmat(v0), _fmat(F0)))
+        jobs.append((s, inp, sol, ts, w))
+    for (s, inp, sol, ts, w), r in zip(jobs, drv.ask(reqs)):
+        n = s["n"]
+        if r == "singular":
+            ctx.disagree("pex-singular", inp, "a solution", "phi singular for the model's elimination")
+            continue
+        q = _qvals(r, "a pex-stream system")
+        bm, rest = q[: n * n], q[n * n:]
+        tb = np.asarray(ts.b, float)
+        tb = np.diag(tb) if tb.ndim == 1 else tb
+        impl_b = [Fraction(float(x)) for x in tb.ravel()]
+        tk = np.asarray(ts.k, float)
+        tk = tk if tk.ndim == 1 else np.diag(tk)
+        if impl_b != bm:
+            ctx.disagree("pex-modal-damping", inp, [str(x) for x in impl_b], [str(x) for x in bm])
+            continue
+        if [Fraction(float(x)) for x in tk] != list(w):
+            ctx.disagree("pex-modal-stiffness", inp, tk.tolist(), [str(x) for x in w])
+            continue
+        impl = [Fraction(float(x)) for arr in (sol.d, sol.v, sol.a) for x in np.asarray(arr, float)[:, 0]]
+        if impl != rest:
+            k_ = next(i for i, (a, b) in enumerate(zip(impl, rest)) if a != b)
+            ctx.disagree("pex-exact", inp, {"quantity": "dva"[k_ // n], "row": k_ % n, "impl": str(impl[k_])},
+                         {"model": str(rest[k_])})
+
+
+# ---------------------------------------------------------------------------------------
+# stream (u): SolveUnc.tsolve on UNCOUPLED equations with complex-dtype coefficients (zero or small non-zero imaginary
+# parts).  They take the complex-eigenvalue path; its rigid-body rows are integrated by the undamped recurrence whatever
+# their damping is (open finding F61) and the Lean model says exactly that (`cplxUncRbDV`), so this stream agrees with
+# the implementation; the model-free oracle reports the damped rows under the family of F61.
+
+F61 = "tsolve-unc-complex-dtype-damped-rigid-body-mode-damping-ignored"
+# found by this check, repaired in /repo (fix: commit 4a72d85): kept as a regression guard
+FIXED_F62 = "tsolve-unc-complex-dtype-conjugate-pairs-deleted-spurious-imaginary-part"
+
+
+def _gen_cu(rng):
+    s = _gen_modal(rng, n=int(rng.integers(1, 6)), oracle=True, allow_rf=False, allow_crit=False)
+    n = s["n"]
+    nt = int(rng.integers(2, 20))
+    s["order"] = int(rng.integers(0, 2))
+    s["rb"] = None if rng.random() < 0.5 else [i for i in range(n) if s["kinds"][i] == "rb"]
+    s["rf"] = []
+    s["static"] = bool(rng.random() < 0.3)
+    s["d0"] = _gen_ic_vec(rng, n, 0.45)
+    s["v0"] = _gen_ic_vec(rng, n, 0.45, 0.1 / s["h"])
+    s["F"] = [[float(x) for x in row] for row in rng.standard_normal((n, nt)) * 10 ** rng.uniform(-1, 2)]
+    s["kind"] = "cplx-unc"
+    # which array carries the complex dtype, and the loss factor of the stiffness (0: zero imaginary parts)
+    s["carrier"] = str(rng.choice(["k", "b", "m"])) if s["m"] is not None else str(rng.choice(["k", "b"]))
+    s["eta"] = 0.0 if rng.random() < 0.5 else float(10 ** rng.uniform(-3, -1.3))
+    if s["eta"]:
+        s["carrier"] = "k"
+    return s
+
+
+def _cu_args(s):
+    m = None if s["m"] is None else np.array(s["m"], float)
+    b = np.array(s["b"], float)
+    k = np.array(s["k"], float)
+    if s["carrier"] == "k":
+        k = k * (1 + 1j * s["eta"])
+    elif s["carrier"] == "b":
+        b = b.astype(complex)
+    else:
+        m = m.astype(complex)
+    return m, b, k
+
+
+def _cc(a):
+    return " ".join(_cbits(z) for z in np.asarray(a, complex).ravel())
+
+
+def _corr_cu(ctx, drv):
+    ode = _ode()
+    rng = ctx.np_rng(12)
+    jobs, reqs = [], []
+    for _ in range(ctx.pick(200, 2000)):
+        s = _gen_cu(rng)
+        n, h, o = s["n"], s["h"], s["order"]
+        m, b, k = _cu_args(s)
+        F = np.array(s["F"], float)
+        nt = F.shape[1]
+        inp = dict(s, stream="cu")
+        ctx.case(json.dumps(s, sort_keys=True), nontrivial=nt >= 3, branch="cu:order%d" % o)
+        for tag in ("cu:carrier-" + s["carrier"], "cu:imaginary-" + ("zero" if not s["eta"] else "nonzero"),
+                    "cu:rb-" + ("auto" if s["rb"] is None else "given"), "cu:m-" + ("none" if m is None else "given")):
+            ctx.count(tag)
+        for sub in set(s["sub"]):
+            if sub.startswith("rb"):
+                ctx.count("cu:" + sub)
+        if s["static"] and s["d0"] is None:
+            ctx.count("cu:static-ic")
+        try:
+            with warnings.catch_warnings():
+                warnings.simplefilter("ignore")
+                ts = ode.SolveUnc(m, b, k, h, rb=s["rb"], order=o)
+                sol = ts.tsolve(F, _arr(s["d0"]), _arr(s["v0"]), static_ic=s["static"])
+        except Exception as e:  # noqa: BLE001
+            ctx.disagree("cu-raises", inp, "%s: %s" % (type(e).__name__, str(e)[:80]), "a solution")
+            continue
+        if not (ts.unc and ts.systype is complex):
+            ctx.disagree("cu-path", inp, [bool(ts.unc), str(ts.systype)], "uncoupled, complex systype")
+            continue
+        el = _idx(ts.el, n)
+        pc = ts.pc
+        cond = 1.0
+        if el:
+            mm = np.ones(len(el)) if m is None else m[el]
+            A = _state_matrix(np.diag(mm), np.diag(b[el]), np.diag(k[el]))
+            lam = np.asarray(pc.lam)
+            U = np.vstack([np.asarray(pc.ur_v), np.asarray(pc.ur_d)])
+            V = np.hstack([np.asarray(pc.ur_inv_v), np.asarray(pc.ur_inv_d)])
+            if U.shape[0] != U.shape[1]:
+                # conjugate eigenvalue pairs are deleted only for real systems (repair 4a72d85, finding F62): for a
+                # complex systype the model runs the full modal recurrence with the complex recovery
+                ctx.disagree("cu-conjugates-deleted", inp, "pc holds %d of %d eigenvalues" % (len(lam), U.shape[0]),
+                             "no deletion for a complex systype")
+                continue
+            else:
+                cond = float(np.linalg.cond(U))
+                res = max(np.abs(U @ V - np.eye(len(lam))).max(), np.abs(V @ U - np.eye(len(lam))).max(),
+                          np.abs(A @ U - U * lam[None, :]).max() / (max(1.0, np.abs(A).max()) * max(1.0, np.abs(U).max())))
+            grade = _slow_mode_grade(lam, h)
+            if cond > 1e6 or not pc.eig_success or grade is None:
+                ctx.skip("cu: eigenvectors ill conditioned or a slow mode outside the conditioning domain")
+                continue
+            ctx.count("cu:spec-checked")
+            _note("cu-eig-spec-residual-over-cond", res / max(10.0, cond))
+            if not res <= 1e-9 * max(10.0, cond):
+                ctx.disagree("cu-eig-spec", inp, {"residual": float(res), "cond": cond}, "<= 1e-9*cond")
+                continue
+            cond *= grade
+            pcs = "%d %s %s %s %s %s" % (len(lam), _cmat(lam), _cmat(pc.ur_v), _cmat(pc.ur_d), _cmat(pc.ur_inv_v),
+                                         _cmat(pc.ur_inv_d))
+        else:
+            pcs = "0"
+        t = ["cu", str(o), bits(h), str(n)]
+        t += ["none"] if m is None else ["vec", _cc(m)]
+        t += [_cc(b), _cc(k)]
+        t += ["n"] if s["rb"] is None else [str(len(s["rb"]))] + [str(i) for i in s["rb"]]
+        t.append("1" if s["static"] else "0")
+        for v in (s["d0"], s["v0"]):
+            t += ["n"] if v is None else ["y", _cc(v)]
+        t += [str(nt), _cc(F), pcs]
+        reqs.append(" ".join(x for x in t if x != ""))
+        jobs.append((s, inp, sol, cond))
+    worst = 0.0
+    for (s, inp, sol, cond), r in zip(jobs, drv.ask(reqs)):
+        if not r.startswith("ok"):
+            ctx.disagree("cu-model-refuses", inp, "a solution", r[:80])
+            continue
+        n, nt = s["n"], len(s["F"][0])
+        x = np.array([unbits(u) for u in r.split()[1:]])
+        z = (x[0::2] + 1j * x[1::2]).reshape(3, n, nt)
+        hh = s["h"]
+        sd = np.abs(z[0]).max() + hh * np.abs(z[1]).max() + 1e-300
+        sv = np.abs(z[1]).max() + sd / hh
+        sa = np.abs(z[2]).max() + sv / hh
+        tol = 1e-9 * max(10.0, cond)
+        for nm, iv, mv, sc in (("d", sol.d, z[0], sd), ("v", sol.v, z[1], sv), ("a", sol.a, z[2], sa)):
+            e = float(np.abs(np.asarray(iv) - mv).max() / sc)
+            worst = max(worst, e / max(10.0, cond))
+            if not e <= tol:
+                ctx.disagree("cu-" + nm, inp, {nm: e}, {"tolerance": tol})
+                break
+    ctx.sample({"stream": "cu", "worst_error_over_cond": float("%.2e" % worst), "systems": len(jobs)})
 
 
 def correspondence(ctx):
@@ -1369,10 +2099,13 @@ def correspondence(ctx):
     _corr_partc(ctx, drv)
     _corr_pc(ctx, drv)
     _corr_exp2(ctx, drv)
+    _corr_exp1(ctx, drv)
+    _corr_preeig(ctx, drv)
+    _corr_cu(ctx, drv)
     ctx.require_branches(
         ["coef:" + r for r in "rigid rigidVelo rigidFull under crit over rf partition-error".split()]
         + ["coef-tag:cut:velo", "coef-tag:cut:disp", "coef-tag:cut:rb", "coef-tag:cut:crit",
-           "cplx:small", "cplx:regular", "part:auto", "part:given", "part:rf-below-rb",
+           "coef:exact-compared", "cplx:small", "cplx:regular", "part:auto", "part:given", "part:rf-below-rb",
            "hist:order0", "hist:order1", "hist:under", "hist:crit", "hist:over", "hist:rf",
            "hist:rb-undamped", "hist:rb-damped-full", "hist:rb-damped-velo",
            "hist:layout-contiguous", "hist:layout-interleaved", "hist:pack-1d", "hist:pack-2d", "hist:pack-mixed",
@@ -1384,7 +2117,20 @@ def correspondence(ctx):
            "pc:static-ic-with-rigid-body-modes",
            "pc:style-modal", "pc:style-skew", "pc:style-sym+skew", "pc:style-sym",
            "exp2:order0", "exp2:order1", "exp2:with-rf", "exp2:static-ic",
-           "exp2:style-uncoupled", "exp2:style-skew", "exp2:style-sym+skew"]
+           "exp2:style-uncoupled", "exp2:style-skew", "exp2:style-sym+skew",
+           "pc:static-by-model", "exp2:static-by-model",
+           "exp1:order0", "exp1:order1", "exp1:dtype-float64", "exp1:dtype-int64", "exp1:dtype-float32",
+           "exp1:style-second-order", "exp1:style-random", "exp1:style-nilpotent", "exp1:d0-given", "exp1:d0-none",
+           "exp1x:order0", "exp1x:order1", "exp1x:dtype-float64", "exp1x:dtype-int64", "exp1x:dtype-float32",
+           "exp1x:single-sample",
+           "pe:order0", "pe:order1", "pe:mass-none", "pe:mass-vec", "pe:mass-mat", "pe:damping-vec", "pe:damping-mat",
+           "pe:SolveUnc", "pe:SolveExp2", "pe:d0-given", "pe:d0-none", "pe:v0-given", "pe:static-ic",
+           "pe:with-rigid-body-modes", "pe:modal-system-uncoupled", "pe:static-by-model",
+           "pex:SolveUnc", "pex:SolveExp2", "pex:mass-none", "pex:mass-vec", "pex:mass-mat", "pex:damping-vec",
+           "pex:damping-mat", "pex:static-ic", "pex:with-rigid-body-mode", "pex:eigh-exact",
+           "cu:order0", "cu:order1", "cu:carrier-k", "cu:carrier-b", "cu:carrier-m", "cu:imaginary-zero",
+           "cu:imaginary-nonzero", "cu:rb-auto", "cu:rb-given", "cu:m-none", "cu:m-given", "cu:rb-undamped",
+           "cu:rb-damped-full", "cu:static-ic", "cu:spec-checked"]
     )
 
 
@@ -1857,11 +2603,395 @@ def _oracle_general(s, fails):
                     break
 
 
+# ---------------------------------------------------------------------------------------
+# SolveExp1 on first-order systems y' = A y + f (model-free: scipy expm of the augmented hold matrix)
+
+
+def _exp1_reference(A, h, F, d0, order):
+    import scipy.linalg as sla
+
+    n, nt = F.shape
+    big = np.zeros((3 * n, 3 * n))
+    big[:n, :n] = A
+    big[:n, n:2 * n] = np.eye(n)
+    big[n:2 * n, 2 * n:] = np.eye(n)
+    X = sla.expm(big * h)
+    y = np.zeros(n) if d0 is None else np.array(d0, float)
+    d = np.zeros((n, nt))
+    for j in range(nt):
+        d[:, j] = y
+        if j + 1 < nt:
+            g = (F[:, j + 1] - F[:, j]) / h if order == 1 else np.zeros(n)
+            y = (X @ np.concatenate([y, F[:, j], g]))[:n]
+    return d, F + A @ d
+
+
+def _oracle_exp1(s, fails):
+    ode = _ode()
+    A = np.array(s["A"], float)
+    F = np.array(s["F"], float).reshape(s["n"], -1)
+    n, nt = F.shape
+    h, o = s["h"], s["order"]
+    d0 = _arr(s["d0"])
+    rd, rv = _exp1_reference(A, h, F, d0, o)
+    sd = np.abs(rd).max() + 1e-300
+    sv = np.abs(rv).max() + np.abs(A).max() * n * sd + 1e-300
+    inp = dict(s)
+
+    def run(name, force, dd0, tol):
+        try:
+            with warnings.catch_warnings():
+                warnings.simplefilter("ignore")
+                so = ode.SolveExp1(A, h, order=o).tsolve(force, dd0)
+        except Exception as e:  # noqa: BLE001
+            fails.append({"family": "SolveExp1-raises-" + name, "what": "SolveExp1 refuses a valid first-order system",
+                          "input": inp, "observed": repr(e)[:120], "required": "a solution"})
+            return None
+        if dd0 is not None and _rel(np.asarray(so.d, float)[:, 0], dd0, sd) > 1e-12:
+            fails.append({"family": "SolveExp1-initial-state-" + name, "what": "d[:, 0] differs from d0", "input": inp,
+                          "observed": np.asarray(so.d, float)[:, 0].tolist(), "required": s["d0"]})
+            return None
+        for nm, x, y, sc in (("d", so.d, rd, sd), ("v", so.v, rv, sv)):
+            e = _note("exp1-" + name, _rel(np.asarray(x, float), y, sc))
+            if not e <= tol:
+                fails.append({"family": "SolveExp1-%s-order%d-vs-expm-reference" % (name, o),
+                              "what": "SolveExp1 (%s) differs from the exact hold solution of y' = A y + f in %s" % (name, nm),
+                              "input": inp, "observed": e, "required": "<= %g" % tol})
+                return None
+        return so
+
+    base = run("float64", F, d0, 1e-9)
+    if s["dtype"] != "float64" and base is not None:
+        # the same whole-numbered force samples handed over as an integer / single-precision array
+        run("force-dtype-" + s["dtype"], F.astype(s["dtype"]), d0, 1e-9)
+    if base is not None and nt >= 2:
+        G = np.empty((n, 2 * nt - 1))
+        G[:, ::2] = F
+        G[:, 1::2] = (F[:, :-1] + F[:, 1:]) / 2 if o == 1 else F[:, :-1]
+        try:
+            with warnings.catch_warnings():
+                warnings.simplefilter("ignore")
+                fine = ode.SolveExp1(A, h / 2, order=o).tsolve(G, d0)
+            e = _note("exp1-subdivision", _rel(np.asarray(fine.d)[:, ::2], np.asarray(base.d), sd))
+            if not e <= 1e-9:
+                fails.append({"family": "subdivision-SolveExp1-direct", "what": "halving every step changes d at the original samples",
+                              "input": inp, "observed": e, "required": "<= 1e-9"})
+        except Exception as e:  # noqa: BLE001
+            fails.append({"family": "SolveExp1-raises-subdivided", "what": "SolveExp1 refuses the subdivided problem",
+                          "input": inp, "observed": repr(e)[:120], "required": "a solution"})
+
+
+# ---------------------------------------------------------------------------------------
+# boundary cases of the documented cut-offs: inputs at constant * (1 -+ 1e-3) and inside the decade above it.
+# Reference for one mode: the exact hold solution evaluated with 60 decimal digits (Taylor series of the augmented
+# matrix with scaling and squaring in `decimal`; independent of pyYeti and of the double-precision formulas).
+
+
+def _hp_1dof(m, b, k, h, F, d0, v0, order):
+    from decimal import Decimal, getcontext
+
+    getcontext().prec = 60
+    D = lambda x: Decimal(float(x))  # noqa: E731
+    m, b, k, hh = D(m), D(b), D(k), D(h)
+    Z = Decimal(0)
+    A = [[-b / m * hh, -k / m * hh, hh / m, Z], [hh, Z, Z, Z], [Z, Z, Z, hh], [Z, Z, Z, Z]]
+
+    def mul(X, Y):
+        return [[sum(X[i][c] * Y[c][j] for c in range(4)) for j in range(4)] for i in range(4)]
+
+    nrm = max(sum(abs(x) for x in row) for row in A)
+    sq = 0
+    while nrm > Decimal("0.5"):
+        nrm /= 2
+        sq += 1
+    A = [[x / (2 ** sq) for x in row] for row in A]
+    E = [[Decimal(int(i == j)) for j in range(4)] for i in range(4)]
+    T = [row[:] for row in E]
+    for kk in range(1, 45):
+        T = [[x / kk for x in row] for row in mul(T, A)]
+        E = [[E[i][j] + T[i][j] for j in range(4)] for i in range(4)]
+    for _ in range(sq):
+        E = mul(E, E)
+    z = [D(v0), D(d0)]
+    d, v = [z[1]], [z[0]]
+    for j in range(len(F) - 1):
+        g = (D(F[j + 1]) - D(F[j])) / hh if order == 1 else Z
+        x = [z[0], z[1], D(F[j]), g]
+        z = [sum(E[i][c] * x[c] for c in range(4)) for i in range(2)]
+        d.append(z[1])
+        v.append(z[0])
+    return np.array([float(x) for x in d]), np.array([float(x) for x in v])
+
+
+def _boundary_specs():
+    out = []
+    F8 = [[float(x) for x in np.cos(np.arange(8) * 0.7) * 3 + 1]]
+    # |w2/wo2| = 1e-8: inside the band the critical formulas are used (switch error of the order of the cut-off),
+    # outside it the result is exact to round-off
+    for h, wh, m in ((0.01, 1.0, 1.3), (0.1, 0.3, 0.7)):
+        k = m * (wh / h) ** 2
+        for sgn in (1.0, -1.0):
+            for f in (1 - 1e-3, 1 + 1e-3, 3.0, 9.0):
+                rat = sgn * 1e-8 * f
+                out.append({"kind": "boundary", "cut": "crit", "factor": f, "side": "under" if sgn > 0 else "over",
+                            "m": m, "b": 2 * m * math.sqrt((k / m) * (1 - rat)), "k": k, "h": h, "rb": [], "F": F8,
+                            "order": 1 if sgn > 0 else 0, "tol_d": 1e-8 if f < 1 else 1e-10, "tol_v": 1e-8 if f < 1 else 1e-10})
+    # damped rigid-body modes: |C| = 10 (1e-10/h)^(1/3) (displacement formulas) and |C| = 1e-5/sqrt(h) (velocity formulas)
+    for h in (0.01, 0.1):
+        cut = 10 * (1e-10 / h) ** (1 / 3)
+        for f in (0.3, 1 - 1e-3, 1 + 1e-3, 3.0, 9.0):
+            out.append({"kind": "boundary", "cut": "rb-disp", "factor": f, "m": 1.0, "b": 2 * cut * f, "k": 0.0, "h": h,
+                        "rb": [0], "F": F8, "order": 1, "tol_d": 2e-3 if f < 1 else 1e-7, "tol_v": 2e-6})
+    for h in (0.1, 1.0):
+        cut = 1e-5 / math.sqrt(h)
+        for f in (0.1, 0.3, 1 - 1e-3, 1 + 1e-3, 3.0, 9.0):
+            out.append({"kind": "boundary", "cut": "rb-velo", "factor": f, "m": 1.0, "b": 2 * cut * f, "k": 0.0, "h": h,
+                        "rb": [0], "F": F8, "order": 0 if h < 1 else 1, "tol_d": 2e-3, "tol_v": 1e-4 if f < 1 else 2e-6})
+    # auto-detection of rigid-body modes: |k| < 0.005
+    for f in (1 - 1e-3, 1 + 1e-3):
+        out.append({"kind": "boundary", "cut": "rb-auto", "factor": f})
+    # |lam| < 5e-5 of the complex-eigenvalue path
+    for f in (1 - 1e-3, 1 + 1e-3, 3.0, 9.0):
+        out.append({"kind": "boundary", "cut": "cplx-small", "factor": f})
+    return out
+
+
+def _oracle_boundary(s, fails):
+    ode = _ode()
+    cut, f = s["cut"], s["factor"]
+    inp = dict(s)
+    side = "below" if f < 1 else "above"
+
+    def fail(what, observed, required, fam=None):
+        fails.append({"family": fam or "boundary-%s-%s-the-documented-cut-off" % (cut, side), "what": what, "input": inp,
+                      "observed": observed, "required": required})
+
+    if cut in ("crit", "rb-disp", "rb-velo"):
+        F = np.array(s["F"], float)
+        d0, v0 = 0.3, -0.2
+        rd, rv = _hp_1dof(s["m"], s["b"], s["k"], s["h"], F[0], d0, v0, s["order"])
+        sd = np.abs(rd).max() + s["h"] * np.abs(rv).max()
+        sv = np.abs(rv).max() + sd / s["h"]
+        for cls in ("SolveUnc", "SolveExp2"):
+            try:
+                with warnings.catch_warnings():
+                    warnings.simplefilter("ignore")
+                    so = getattr(ode, cls)(np.array([s["m"]]), np.array([s["b"]]), np.array([s["k"]]), s["h"], rb=s["rb"],
+                                           order=s["order"]).tsolve(F, [d0], [v0])
+            except Exception as e:  # noqa: BLE001
+                fail("%s refuses a one-mode system at %g times the cut-off" % (cls, f), repr(e)[:120], "a solution")
+                continue
+            tol_d, tol_v = (s["tol_d"], s["tol_v"]) if cls == "SolveUnc" else (1e-10, 1e-10)
+            ed = _note("boundary-%s-%s-%s-d" % (cut, side, cls), float(np.abs(so.d[0] - rd).max() / sd))
+            ev = _note("boundary-%s-%s-%s-v" % (cut, side, cls), float(np.abs(so.v[0] - rv).max() / sv))
+            if not ed <= tol_d:
+                fail("%s: displacement of one mode at %g times the cut-off differs from the exact hold solution "
+                     "(60-digit reference)" % (cls, f), ed, "<= %g" % tol_d)
+            elif not ev <= tol_v:
+                fail("%s: velocity of one mode at %g times the cut-off differs from the exact hold solution "
+                     "(60-digit reference)" % (cls, f), ev, "<= %g" % tol_v)
+        return
+    if cut == "rb-auto":
+        c = 0.005 * f
+        expect_rb = [0] if f < 1 else []
+        nt = 24
+        F = np.vstack([np.cos(np.arange(nt) * 0.3) + 0.5, np.sin(np.arange(nt) * 0.4), np.ones(nt)])
+        # documented rule of get_su_coef itself (rbmodes=None): k/m < 0.005
+        from pyyeti.ode._utilities import get_su_coef
+
+        for m in (None, np.array([2.0, 2.0])):
+            kk = np.array([c * (1.0 if m is None else 2.0), 50.0])
+            pv = [int(x) for x in get_su_coef(m, np.array([0.0, 0.1]), kk, 0.01).pvrb]
+            if pv != [1 if f < 1 else 0, 0]:
+                fail("get_su_coef(rbmodes=None): a mode with k/m = %g*0.005 is classified %s" % (f, pv), pv,
+                     "rigid-body iff k/m < 0.005")
+        # uncoupled and coupled solvers: rb=None must be the documented rule abs(k) < 0.005
+        kv = np.array([c, 4.0, 9.0])
+        bv = np.array([0.0, 0.2, 0.3])
+        Kc = np.diag(kv)
+        Kc[1, 2] = Kc[2, 1] = 0.5
+        for cls in ("SolveUnc", "SolveExp2"):
+            for name, kk in (("uncoupled", kv), ("coupled", Kc)):
+                try:
+                    with warnings.catch_warnings():
+                        warnings.simplefilter("ignore")
+                        a = getattr(ode, cls)(None, bv, kk, 0.5).tsolve(F, None, [0.1, 0.0, 0.0], True)
+                        b = getattr(ode, cls)(None, bv, kk, 0.5, rb=expect_rb).tsolve(F, None, [0.1, 0.0, 0.0], True)
+                except Exception as e:  # noqa: BLE001
+                    fail("%s (%s) refuses a system with a stiffness at %g times the tolerance" % (cls, name, f),
+                         repr(e)[:120], "a solution")
+                    continue
+                e = _note("boundary-rb-auto", _rel(a.d, b.d))
+                if not e <= 1e-10:
+                    fail("%s (%s): rb=None differs from rb=%s for a mode with abs(k) = %g*0.005 (static_ic, 24 steps)"
+                         % (cls, name, expect_rb, f), e, "rb=None is the documented rule abs(k) < 0.005")
+        return
+    if cut == "cplx-small":
+        # a strongly over-damped oscillator (slow eigenvalue ~ -w/(2 zeta)) coupled to a second one through the
+        # stiffness: well-conditioned eigenvectors, the slow eigenvalue placed at the boundary by bisection on zeta
+        h, nt = 20.0, 8
+        target = 5e-5 * f
+
+        def mats(z):
+            return np.eye(2), np.array([[0.2 * z, 0.0], [0.0, 0.03]]), np.array([[0.01, 0.002], [0.002, 0.09]])
+
+        def small(z):
+            M, B, K = mats(z)
+            return np.abs(np.linalg.eigvals(_state_matrix(M, B, K))).min()
+
+        lo, hi = 3000.0, 50.0  # small(lo) < target < small(hi)
+        for _ in range(80):
+            mid = (lo + hi) / 2
+            if small(mid) < target:
+                lo = mid
+            else:
+                hi = mid
+        M, B, K = mats(hi)
+        got = small(hi)
+        if abs(got - target) > 1e-4 * target:
+            return  # the construction did not reach the boundary (not a statement about pyYeti)
+        F = np.vstack([0.01 * np.cos(np.arange(nt) * 0.7) + 0.02, 0.01 * np.ones(nt)])
+        d0, v0 = np.array([0.3, 0.2]), np.array([0.0, 0.01])
+        inp.update(M=M.tolist(), B=B.tolist(), K=K.tolist(), h=h, lam_small=float(got))
+        for o in (0, 1):
+            rd, rv, ra, A = _expm_reference(M, B, K, h, F, d0, v0, o)
+            lam, V = np.linalg.eig(A)
+            condV = np.linalg.cond(V)
+            sd = np.abs(rd).max() + h * np.abs(rv).max()
+            T = h * (nt - 1)
+            # below the cut-off the mode is integrated as lam = 0: accurate to |lam| T (the documented cut-off);
+            # above it: graded by the conditioning rule of the complex coefficients
+            tol = 4 * 5e-5 * T if f < 1 else 1e-9 * max(10.0, condV) * max(1.0, (1e-2 / (got * h)) ** 2)
+            try:
+                with warnings.catch_warnings():
+                    warnings.simplefilter("ignore")
+                    so = ode.SolveUnc(M, B, K, h, order=o).tsolve(F, d0, v0)
+            except Exception as e:  # noqa: BLE001
+                fail("SolveUnc refuses a coupled system with an eigenvalue at %g times the tolerance" % f, repr(e)[:120], "a solution")
+                continue
+            e = _note("boundary-cplx-small-" + side, _rel(so.d, rd, sd))
+            if not e <= tol:
+                fail("SolveUnc (coupled path, order %d): a mode with |lam| = %g*5e-5 differs from the exact hold solution" % (o, f),
+                     e, "<= %g" % tol)
+        return
+
+
+def _expm_reference_c(M, B, K, h, F, d0, v0, order):
+    """`_expm_reference` for complex coefficients"""
+    import scipy.linalg as sla
+
+    n, nt = F.shape
+    Mi = np.linalg.inv(M)
+    A = np.zeros((2 * n, 2 * n), complex)
+    A[:n, :n] = -Mi @ B
+    A[:n, n:] = -Mi @ K
+    A[n:, :n] = np.eye(n)
+    big = np.zeros((4 * n, 4 * n), complex)
+    big[: 2 * n, : 2 * n] = A
+    big[:n, 2 * n: 3 * n] = Mi
+    big[2 * n: 3 * n, 3 * n:] = np.eye(n)
+    E = sla.expm(big * h)
+    z = np.concatenate([np.zeros(n) if v0 is None else v0, np.zeros(n) if d0 is None else d0]).astype(complex)
+    d, v, a = (np.zeros((n, nt), complex) for _ in range(3))
+    for j in range(nt):
+        d[:, j], v[:, j] = z[n:], z[:n]
+        a[:, j] = Mi @ (F[:, j] - B @ v[:, j] - K @ d[:, j])
+        if j + 1 < nt:
+            g = (F[:, j + 1] - F[:, j]) / h if order == 1 else np.zeros(n)
+            z = (E @ np.concatenate([z, F[:, j], g]))[: 2 * n]
+    return d, v, a
+
+
+def _oracle_cu(s, fails):
+    """uncoupled equations with complex-dtype coefficients: SolveUnc against the exact hold solution (scipy expm).
+    A damped rigid-body row that comes out as the UNDAMPED one — and nothing else wrong — is finding F61."""
+    ode = _ode()
+    n, h, o = s["n"], s["h"], s["order"]
+    m, b, k = _cu_args(s)
+    F = np.array(s["F"], float)
+    inp = dict(s)
+    rbs = [i for i in range(n) if s["kinds"][i] == "rb"]
+    el = [i for i in range(n) if s["kinds"][i] == "el"]
+    d0, v0 = _arr(s["d0"]), _arr(s["v0"])
+    if d0 is None and s["static"]:
+        d0 = np.zeros(n, complex)
+        if el and np.any(F[el, 0]):
+            d0[el] = F[el, 0] / k[el]
+    M = np.diag(np.ones(n) if m is None else m)
+
+    def ref(bvec):
+        kk = np.array(k, complex)
+        kk[rbs] = 0.0  # a rigid-body mode has no stiffness (documented meaning of `rb`)
+        return _expm_reference_c(M, np.diag(bvec), np.diag(kk), h, F, d0, v0, o)
+
+    try:
+        with warnings.catch_warnings():
+            warnings.simplefilter("ignore")
+            so = ode.SolveUnc(m, b, k, h, rb=s["rb"], order=o).tsolve(F, _arr(s["d0"]), _arr(s["v0"]), s["static"])
+    except Exception as e:  # noqa: BLE001
+        fails.append({"family": "complex-uncoupled-raises", "what": "SolveUnc refuses an uncoupled system with complex-dtype "
+                      "coefficients", "input": inp, "observed": repr(e)[:120], "required": "a solution"})
+        return
+    got = [np.asarray(x) for x in (so.d, so.v, so.a)]
+    hh = h
+
+    def rowerr(r):
+        sd = np.abs(r[0]).max(axis=1) + hh * np.abs(r[1]).max(axis=1) + 1e-300
+        sv = np.abs(r[1]).max(axis=1) + sd / hh
+        sa = np.abs(r[2]).max(axis=1) + sv / hh
+        return np.max([np.abs(g - x).max(axis=1) / sc for g, x, sc in zip(got, r, (sd, sv, sa))], axis=0)
+
+    TOL = 1e-7
+    if not s["eta"]:
+        # regression guard of finding F62 (repaired in 4a72d85): all coefficients, the force and the initial state are
+        # real, so the response is real: no imaginary part beyond round-off may come back
+        sc = [max(np.abs(g).max(), 1e-300) for g in got]
+        sc = [sc[0] + hh * sc[1], sc[1] + sc[0] / hh, sc[2] + sc[1] / hh]
+        imag = _note("complex-uncoupled-zero-imaginary-coefficients-imag", max(float(np.abs(g.imag).max() / c_) for g, c_ in zip(got, sc)))
+        if not imag <= 1e-12:
+            fails.append({"family": FIXED_F62,
+                          "what": "SolveUnc.tsolve, uncoupled equations given with a complex dtype but zero imaginary parts (%s "
+                                  "complex): the response has an imaginary part of %.3g (relative) although the solution is real "
+                                  "(conjugate eigenvalue pairs deleted, complex recovery used)" % (s["carrier"], imag),
+                          "input": inp, "observed": imag, "required": "<= 1e-12 (round-off)"})
+            got[:] = [g.real.astype(complex) for g in got]  # go on with the real parts
+    e_true = rowerr(ref(np.array(b, complex)))
+    _note("complex-uncoupled-SolveUnc", float(np.max(np.where(np.isin(np.arange(n), [i for i in rbs if b[i] != 0]), 0.0, e_true))))
+    bad = [i for i in range(n) if not e_true[i] <= TOL]
+    if not bad:
+        return
+    damped_rb = [i for i in rbs if b[i] != 0]
+    b0 = np.array(b, complex)
+    b0[damped_rb] = 0.0
+    e_undamped = rowerr(ref(b0))
+    if damped_rb and set(bad) <= set(damped_rb) and np.all(e_undamped <= TOL):
+        fails.append({"family": F61,
+                      "what": "SolveUnc.tsolve, uncoupled equations with complex-dtype coefficients (%s complex, loss factor %g): "
+                              "the damped rigid-body row(s) %s are integrated as undamped (d, v, a equal the b = 0 solution to "
+                              "%.1e, differ from the exact hold solution by %.2e); all other rows are right"
+                              % (s["carrier"], s["eta"], bad, float(e_undamped.max()), float(e_true[bad].max())),
+                      "input": inp, "observed": float(e_true[bad].max()), "required": "<= %g" % TOL})
+        return
+    fails.append({"family": "complex-uncoupled-SolveUnc-vs-expm-reference-order%d" % o,
+                  "what": "SolveUnc.tsolve on uncoupled equations with complex-dtype coefficients differs from the exact hold "
+                          "solution in rows %s (kinds %s) - not the damped-rigid-body pattern of F61" % (bad, [s["sub"][i] for i in bad]),
+                  "input": inp, "observed": float(e_true[bad].max()), "required": "<= %g" % TOL})
+
+
 def _oracle_one(s):
     _quiet()
     fails = []
     if s.get("kind") == "general":
         _oracle_general(s, fails)
+        return fails
+    if s.get("kind") == "exp1":
+        _oracle_exp1(s, fails)
+        return fails
+    if s.get("kind") == "cplx-unc":
+        _oracle_cu(s, fails)
+        return fails
+    if s.get("kind") == "boundary":
+        _oracle_boundary(s, fails)
         return fails
     if s.get("kind") == "coupled" or s.get("phi") is not None:
         _oracle_coupled(s, fails)
@@ -1892,6 +3022,10 @@ def _hint_specs(hints):
                 out.append(i["usys"])
             else:
                 out.append({k_: v for k_, v in i.items() if k_ not in ("stream", "static", "rb", "rf", "blockphi")})
+        elif st in ("exp1", "cu"):
+            out.append({k_: v for k_, v in i.items() if k_ != "stream"})
+        elif st == "pe":
+            out.append({k_: v for k_, v in i.items() if k_ not in ("stream", "mform", "bform", "solver", "static")} | {"kind": "general"})
         elif st == "coef" and i.get("rf") == "0":
             # a one-mode system around the disagreeing coefficient input
             m, b, k, hh = i["m"], i["b"], i["k"], i["h"]
@@ -1916,7 +3050,16 @@ def _fixed_specs():
     """small hand-picked systems that always run (rf below rb)."""
     base = dict(layout="interleaved", order=1, static=False, d0=None, v0=None, pack="1d")
     F = [[1.0, 1.0, 1.0, 1.0, 1.0]] * 4
+    t = np.arange(40) * 0.01
+    cu = dict(kind="cplx-unc", layout="contiguous", order=1, static=False, d0=None, v0=None, rb=None, rf=[], h=0.01,
+              carrier="k", eta=0.0)
     return [
+        # the reproducer of finding F61 (damped rigid-body row of an uncoupled complex-dtype system)
+        dict(cu, n=2, m=[2.0, 3.0], b=[0.8, 0.3], k=[0.0, 50.0], kinds=["rb", "el"], sub=["rb-damped-full", "under"],
+             F=[[float(x) for x in np.sin(3 * t)], [float(x) for x in np.cos(2 * t)]]),
+        # finding F62 (repaired): one under-damped mode, complex dtype with zero imaginary parts, on which la.eig returns
+        # an exactly conjugate pair
+        dict(cu, n=1, m=None, b=[0.1], k=[16.0], kinds=["el"], sub=["under"], F=[[float(x) for x in np.sin(3 * t)]]),
         dict(base, n=4, h=0.01, m=None, b=[0.0, 0.0, 2.0, 3.0], k=[1e6, 0.0, 400.0, 900.0], kinds=["rf", "rb", "el", "el"],
              sub=["rf", "rb-undamped", "under", "under"], rb=None, rf=[0], F=F),
         dict(base, n=4, h=0.01, m=None, b=[0.0, 2.0, 3.0, 0.0], k=[0.0, 400.0, 900.0, 1e6], kinds=["rb", "el", "el", "rf"],
@@ -1934,8 +3077,19 @@ def search(ctx, hints):
         specs.append(_gen_coupled(ctx, rng, oracle=True))
     for _ in range(ctx.pick(250, 3000)):
         specs.append(_gen_general(rng))
+    rng1 = ctx.np_rng(11)
+    for _ in range(ctx.pick(150, 1500)):
+        specs.append(_gen_exp1(rng1))
+    rng2 = ctx.np_rng(13)
+    for _ in range(ctx.pick(80, 800)):
+        specs.append(_gen_cu(rng2))
+    specs = _boundary_specs() + specs
     for s in specs:
         fs = _oracle_one(s)
+        if s.get("kind") in ("exp1", "boundary", "cplx-unc"):
+            ctx.count("oracle:" + s["kind"] + ("-" + s["cut"] if s.get("cut") else ""))
+            ctx.failures.extend(fs)
+            continue
         if s.get("kind") == "general":
             ctx.count("oracle:general-coupled")
             ctx.count("oracle:general-" + s["style"] + ("-zero-stiffness-dof" if s["nz"] else ""))
